@@ -12,1220 +12,1146 @@ Definition show_fres (r : fres) : string :=
   end.
 Definition check (rs : list rune) : string := digest (show_fres (format_res rs)).
 Definition full (rs : list rune) : string := show_fres (format_res rs).
-Eval vm_compute in ("<<<M4278>>>" ++ check (runes_of_ascii "  // top
-	options// c0
-    { // c1
-	LittleEndian  // c2a
-
-	// c2b
-=  
-      // c3
-    false  // c4
-		;	StringPrefixLenType // c6a
-	// c6b
-
-  =
-        // c7
-u16 	 // c8
-;  ArrayPrefixLenType 
-      // c10
-=
-        // c11
-  u64
-	    // c12
-
-; // c13
-  	FixedStringPadFromLeft // c14a
-	// c14b
-
-	=  // c15
-
-	true  ;  // c17
-	FixedStringPadChar	// c18
-  = ' ' ; 	 // c21a
-    	// c21b
-	}// c22
-      packet
-
-    // c23
-
-Logon
-    // c24
-	{ 
-
-    // c25
-u16  // c26a
-// c26b
-	Tail  // c27
-
-	,	// c28
-    	repeat 	 // c29a
-	// c29b
-	string// c30a
-// c30b
-		x
-    , // c32a
-// c32b
-	i16 count// c34a
-	  // c34b
-  	,@leftPad  (// c37a
-		// c37b
-	  '0' 
-
-// c38
-    ) // c39
-
-	char[
-	    // c40
-3 
-
-// c41
-	  ] 	 // c42
-	  Note 	 // c43a
-      // c43b
-  ,	// c44a
-  	// c44b
-  }	// c45
-
-packet Fill 	 // c47
-  {
-}	// c49
-    	packet	Heartbeat // c51a
-// c51b
-
-{	// c52
-  } packet 
-	// c54
-	Reject
-    // c55
-
-	{string  msgKind// c58
-	  ,	// c59a
-  // c59b
-  repeat 
-  // c60
-	Logon 
-// c61
-,InFlags25	{
-        // c64
-
-	repeat
-InPrice29// c66
-
-{
-	u8
-	price// c69a
-	// c69b
-,	// c70
-
-	Logon  // c71
-    , 	 // c72
-  repeat	// c73
-  char[	// c74
-  1
-
-    ]// c76a
-  // c76b
-		Note 	 // c77
-      ,  // c78
-		}	// c79a
-  // c79b
-		,
-char[]
-
-// c81
-	  x , // c83
-      Fill
-
-    // c84
-	,	} 	 // c86a
-  	// c86b
-, 
-
-    // c87
-
-	repeat  Heartbeat
-
-// c89
-,
-    // c90
-  }
-
-root	// c92a
-
-// c92b
-
-	packet	// c93
-  Order 	 // c94a
-
-// c94b
-    {  // c95a
-    // c95b
-    InNote88 
-      // c96
-  { repeat  
-  // c98
-	i32 
-Acct 
-// c100
-	, // c101a
-// c101b
-repeat 
-        // c102
-    	i16 // c103a
-    // c103b
-  clOrdID	// c104
-	,	repeat // c106a
-  // c106b
-	Logon 
-// c107
-  	,}
-
-,
-	u16  tag7
-, // c113a
-    // c113b
-match
-
-// c114
-    	tag7 as
-
-    // c116
-
-	Body // c117
-	{
-[ 
-	    // c119
-
-  14
-
-,  // c121
-		22 
-        // c122
-    ]// c123
-:
-
-Logon// c125
-    ,	55  // c127
-      : 	 // c128a
-	// c128b
-
-  Heartbeat	// c129
-
-	, // c130
-  93  // c131
-	:	// c132
-Reject  // c133
-	  ,
-13
-    // c135
-  :
-
-Fill// c137a
-
-  // c137b
-,
-    } 	 // c139a
-    // c139b
-	  , 	 // c140
-
-} // c141a
-		// c141b
-")).
-Eval vm_compute in ("<<<M975>>>" ++ check (runes_of_ascii "MetaData BodyLength
-    { zchar[ 42 // trailing space 
-] falsey
-    ,
-x_y_z trueish `{ , }` , options1 Header
-    `
-` , uint8
-    Header `tab	here` ,
-uint8
-    // packet A { u8 x, }
-    zchar
-    ,
-float64 len
-, } packet//x
-chars {  zchar[ 00 ]
-    options1 ,	zchar[ // c
-7 ] Header , @tag( 0	)char[] MetaDataX `line1
-line2`
-,	repeat
-metadata{ i64
-// packet A { u8 x, }
-// @lengthOf(
-MetaDataX , int8 o ,leftPad Pad ,
-string	Z9_ `u8 x,`
-, } , @leftPad
-    ( '0' ) u64 calculatedFrom
-// trailing space 
-// c
-@calculatedFrom(
-""a\""b"" )  , @lengthOf( leftPad
-    ) repeat Foo `line1
-line2`,}
-    packet options1
-//x
-//	t
-{ @tag(00	)body
-asx,
-// a // b
-// " ++ [128512]%N ++ runes_of_ascii " emoji
-repeat MetaDataX{ repeat i64
-    u8x `" ++ [233]%N ++ runes_of_ascii "`, } , pack @calculatedFrom( ""CRC32"" ) `
-`
-,  repeat Pad { Foo{
-    repeat i8i8, MetaDataX ,
+Eval vm_compute in ("<<<M3854>>>" ++ check (runes_of_ascii "packet u {
+    @leftPad('\x00')
+    match pack as Logon {
+        """ ++ [28040; 24687]%N ++ runes_of_ascii """ : As,
+        ""`tick`"" : asx,
+        0 : float,
+    },
     // @lengthOf(
-    lengthOf @calculatedFrom(""abc"" )`// not a comment`	, /// triple
-}	,}  , float64 string_ @calculatedFrom( //
-""it's""	)
-`u8 x,` ,
-    i8  Z9_
-@lengthOf(_x ),
-BodyLength matchKey `tab	here`, uint64
     // " ++ [128512]%N ++ runes_of_ascii " emoji
-    As  @calculatedFrom( ""// no comment"" ) ,  } packet leftPad { match packetx as// trailing space 
-Foo
-{ [ ""x y"" ,
-    3]
-    // " ++ [128512]%N ++ runes_of_ascii " emoji
-    : As ,
-00:
-    leftPad
-// a // b
-//	t
-, [""\n"" , """"
-    ] : MetaDataX	,
-00
-    : x
-"""" : int
-    , }, i32
-    // " ++ [27880; 37322]%N ++ runes_of_ascii "
-    Foo,repeat string
-roots  , repeat body chars `" ++ [28040; 24687; 31867; 22411]%N ++ runes_of_ascii "`,
-int `" ++ [233]%N ++ runes_of_ascii "`
-    , @rightPad (
-' ' ) string BodyLength, @lengthOf(lengthOf // " ++ [128512]%N ++ runes_of_ascii " emoji
-)
-    char uint8x `line1
-line2` , zchar[
-00 ]
-    repeatCount	@calculatedFrom( """ ++ [28040; 24687]%N ++ runes_of_ascii """ )
-, @calculatedFrom( ""a	b"") falsey
-    //x
-    @calculatedFrom( ""1"" )
-    `crlf
-line` , } //x
-packet Header { // trailing space 
-@calculatedFrom(
-""" ++ [28040; 24687]%N ++ runes_of_ascii """ ) int64 u	`crlf
-line`,
-@calculatedFrom(
-""CRC32"" ) // packet A { u8 x, }
-int64 uint8x,
-char[255
-] Foo `
-`
-    ,}
-")).
-Eval vm_compute in ("<<<M4100>>>" ++ check (runes_of_ascii "MetaData chars {
-}
-
-packet lengthOf {
-    @lengthOf(_x)
-    uint16 Z9_ `" ++ [28040; 24687; 31867; 22411]%N ++ runes_of_ascii "`,
-    repeat BodyLength {
-        repeat u8x zchar,
+    string trueish @calculatedFrom(""a	b""),// " ++ [27880; 37322]%N ++ runes_of_ascii "
+    match matchKey as options1 {
+        //x
+        /// triple
+        00 : lengthOf,
+        // @lengthOf(
+        //x
     },
-    a1,
-    // " ++ [27880; 37322]%N ++ runes_of_ascii "
-    T @calculatedFrom(""\" ++ [233]%N ++ runes_of_ascii """),
-    match calculatedFrom as string_ {
-        """ ++ [233]%N ++ runes_of_ascii "t" ++ [233]%N ++ runes_of_ascii """ : _x,
-        ""a	b"" : zchar,
+    match roots as Header {
+        42 : string_,
         [
-            10, 00, ""x y"", ""abc"", ""packet"",
-            ""{,}""
-        ] : u128,
-        ""abc"" : x_y_z,
-        """ ++ [233]%N ++ runes_of_ascii "t" ++ [233]%N ++ runes_of_ascii """ : packetx,
+            10, ""a\""b"", ""\" ++ [233]%N ++ runes_of_ascii """, ""\" ++ [233]%N ++ runes_of_ascii """, ""CRC32"",
+            ""1"", ""it's"", ""abc""
+        ] : lengthOf,
+        ""CRC32"" : As,
     },
-    zchar[1] A @lengthOf(float) `say ""hi""`,
-    repeat f32 asx,
-    @rightPad(' ')
-    char[] msg_type `say ""hi""`,
+    char[] falsey,//	t
+    chars @lengthOf(a1),
+    @tag(255)
+    @lengthOf(x)
+    match metadata as rootA {
+        007 : trueish,
+        00 : metadata,
+        [0123456789] : x_y_z,
+        0 : Logon,
+    },
+    @leftPad('\x00')
+    zchar[1] pack `" ++ [233]%N ++ runes_of_ascii "`,
+    @leftPad()
+    match x_y_z as Z9_ {
+        // a // b
+        //x
+        """ ++ [128512]%N ++ runes_of_ascii """ : leftPad,
+    },
+    repeat Z9_ `tab	here`,// trailing space 
 }
 
-packet Pad {
-    As @lengthOf(rootA) `say ""hi""`,
-    repeat _x {
-        Logon Foo,// `tick` ""quote"" 'q'
-        falsey MetaDataX,
-    },
-    msg_type roots `line1
-        line2`,
-    pack pack,
-    chars `crlf
-        line`,
-    @lengthOf(lengthOf)
-    match lengthOf as o {
-        3 : falsey,
-    },
+options {
+    uint8x = string;
 }
 
-packet o {
-    // packet A { u8 x, }
-    i64_ `{ , }`,
-    match MetaDataX as Foo {
-        """ ++ [233]%N ++ runes_of_ascii "t" ++ [233]%N ++ runes_of_ascii """ : leftPad,
-        [00] : f32a,
-        [0123456789, ""`tick`""] : float,
-        ""it's"" : pack,
-        ""`tick`"" : charz,
+MetaData MetaDataX {
+    i64_ uint8x,
+    zchar[0] float,
+    char[] packetx `it's`,
+}
+
+root packet crc {
+    @tag(1)
+    i64_ @calculatedFrom(""" ++ [233]%N ++ runes_of_ascii "t" ++ [233]%N ++ runes_of_ascii """),//x
+    @calculatedFrom(""\n"")
+    @calculatedFrom(""it's"")
+    @calculatedFrom(""a\\"")
+    chars uint8x,
+    @tag(7)
+    match Logon as string_ {
+        3 : a1,
+        // " ++ [128512]%N ++ runes_of_ascii " emoji
     },
-    options1 leftPad,// packet A { u8 x, }
-    string body,
-    @calculatedFrom(""{,}"")
-    As,// " ++ [128512]%N ++ runes_of_ascii " emoji
-    match u as Packet {
-        ""it's"" : _x,
-        10 : BodyLength,
-        ""\n"" : float,
-        4294967296 : falsey,
-        007 : charz,
-        00 : stringy,
-    },
-    repeat string_,
+    int16 i64_ `
+        `,
+    @tag(1)
+    falsey T,
 }
 
 root packet Foo {
-    repeat char[7] lengthOf `
-        `,
-    @lengthOf(Packet)
-    repeat i32 float,
-    options1 _x `{ , }`,
-}")).
-Eval vm_compute in ("<<<M1001>>>" ++ check (runes_of_ascii "packet zchar{uint32 msg_type `a\`	,	char[ // " ++ [27880; 37322]%N ++ runes_of_ascii "
-255 // @lengthOf(
-]packetx `doc`	, @calculatedFrom("""" ) char[] MetaDataX @lengthOf(	A
-)
-    , @calculatedFrom(""it's""
-    ) // @lengthOf(
-string_
-@calculatedFrom( ""a\""b"" )
-`crlf
-line` , char[ 0123456789 ]A `u8 x,`,// trailing space 
-}
-// @lengthOf(
-// `tick` ""quote"" 'q'
-packet chars { @calculatedFrom( ""{,}"" )
-    match i64_ as MetaDataX { // `tick` ""quote"" 'q'
-""`tick`""
-:
-    roots, [ 4294967296	,
-// " ++ [128512]%N ++ runes_of_ascii " emoji
-// trailing space 
-""1""  ] :u  ,// trailing space 
-},
-f32a {
-    pack
-,
-packetx @calculatedFrom( ""a\\"" ) , float64 stringy @calculatedFrom(""// no comment""
-    )`{ , }`	,char[ 4294967296 ]Packet
-@calculatedFrom( ""a\""b"") , } , }  packet Packet
-    { repeatCount
-tag, char[ 1
-] crc `{ , }` , @leftPad( )
-    zchar[ 0	]Logon
-    @calculatedFrom( """ ++ [233]%N ++ runes_of_ascii "t" ++ [233]%N ++ runes_of_ascii """ // c
-) ,
-    leftPad
-// `tick` ""quote"" 'q'
-// " ++ [128512]%N ++ runes_of_ascii " emoji
-{
-    //	t
-    repeat
-    uint32 stringy , string Foo	@calculatedFrom( ""it's"")`doc`, string  Foo @lengthOf(zchar /// triple
-)
-, } //x
-, i64 body,repeat string x_y_z , zchar[ //x
-007]Packet`doc`
-    ,@tag( 65535 ) char[
-    0 ] float  , } packet
-// " ++ [128512]%N ++ runes_of_ascii " emoji
-// `tick` ""quote"" 'q'
-i8i8 { repeat
-    falsey`two words`, }
-options{roots =
-    ""\" ++ [233]%N ++ runes_of_ascii """
-o = '\x00' ;u = char[ 7
-]
-    metadata = true // trailing space 
-float
-=""\n"" ; }")).
-Eval vm_compute in ("<<<M4439>>>" ++ check (runes_of_ascii "
-options
-{
-MetaDataX  =
-
-' ' 
-
-//	t
-
-	// trailing space 
-  ;	trueish  =	""" ++ [233]%N ++ runes_of_ascii "t" ++ [233]%N ++ runes_of_ascii """
-
-;
-	/// triple
-  	} packet 
-BodyLength
-{
-	@lengthOf(
-
-    repeatCount )char[
-65535
-
-    ]
-
-crc @calculatedFrom(
-"""" 
-)
-    ,zchar[0 ]
-x_y_z
-	@calculatedFrom(
-
-    ""packet"" ) `a\`
-
-, }
-	packet
-    Header
-    {
-    repeat 
-    // " ++ [128512]%N ++ runes_of_ascii " emoji
-	T { 
-      //x
-
-	//x
-    u128 chars ,} ,
-
-    match
-	Pad
-as crc
-
-    { ""a\""b""
-: x
-	,
-	}
-, @lengthOf(
-
-    rootA ) @lengthOf(
-stringy
-	)
-i32 
-    // a // b
-
-x ,
-	@calculatedFrom(
-
-""" ++ [128512]%N ++ runes_of_ascii """
-	)
-    int8 u
-
-    @lengthOf(
-	Pad
-)  `doc` ,
-    @tag( 65535
-
-)
-
-charz{
-a1	_x ,repeat
-    float32
-
-    Header
-    `say ""hi""`
-    ,char
-
-u ,
-} , 
-    //x
-
-  @leftPad ( )
-@leftPad
-
-    (
-	'0'
-)
-    @rightPad
-    ( '\x00'
-
-    )  match falsey  as As { 	 // " ++ [128512]%N ++ runes_of_ascii " emoji
-  ""a\\"" :  pack}  /// triple
-    ,
-
-repeat  metadata
-	, match
-
-    i8i8
-as  u { [ 4294967296	,
-
-    42
-    ]	// @lengthOf(
-
-	:uint8x, 
-}	,
-	repeat
-uint16
-
-    chars 
-    // " ++ [27880; 37322]%N ++ runes_of_ascii "
-  // @lengthOf(
-  `u8 x,`
-,u16  repeatCount 
-`crlf
-line`
-	,
-}
-
-packet 
-tag
-	{
-    char[ 7
-] 	 // `tick` ""quote"" 'q'
-	  trueish
-
-    ,
-int8  string_	`` 
-// @lengthOf(
-
-// @lengthOf(
-,
-
-    }
-")).
-Eval vm_compute in ("<<<M238>>>" ++ check (runes_of_ascii "
-packet
-    tag{repeat
-    stringy {	repeat
-i32 lengthOf
-, // trailing space 
-string msg_type // " ++ [27880; 37322]%N ++ runes_of_ascii "
-@calculatedFrom( // " ++ [128512]%N ++ runes_of_ascii " emoji
-""// no comment"" ) `" ++ [233]%N ++ runes_of_ascii "` ,
-    zchar
-    { x @calculatedFrom( """ ++ [28040; 24687]%N ++ runes_of_ascii """ )
-    ,repeat u8x len , zchar[ 255 ] i8i8 , } ,
-x @calculatedFrom( ""CRC32"")
-`` ,} , packetx
-//	t
-//	t
-u8x, @calculatedFrom( ""packet"" )
-zchar[  007] body
-@calculatedFrom( ""CRC32"" )
-    , @lengthOf( x_y_z/// triple
-) char[]
-int
-    `" ++ [28040; 24687; 31867; 22411]%N ++ runes_of_ascii "` , zchar[ 42 ]
-Logon@calculatedFrom( ""// no comment""
-    ) ,
-    int8
-f32a , }packet  As { @calculatedFrom(
-""it's""
-)  int64 msg_type	@calculatedFrom( ""a\""b"" )`it's`, i8i8 pack , tag {i64 _x ,match As as f32a { // trailing space 
-007 : _x ,0123456789 : metadata
-    , }
-, }, @lengthOf( body )repeat
-u8
-f32a
-    `` , char[] Pad `line1
-line2` ,
-    @lengthOf(msg_type)  string len , @lengthOf(	a1) @tag(00
-) @rightPad('\x00' ) char[ 65535 ] Header ,// trailing space 
-@calculatedFrom(
-    // a // b
-    ""1""
-) @calculatedFrom(
-""a\\""  )
-    // @lengthOf(
-    @lengthOf( body
-//
-// " ++ [27880; 37322]%N ++ runes_of_ascii "
-)
-    i8
-x_y_z
-, }
-root packet a1 {
-    }
-    packet A{
-}
-    // " ++ [128512]%N ++ runes_of_ascii " emoji
-    packet calculatedFrom {}")).
-Eval vm_compute in ("<<<M3499>>>" ++ check (runes_of_ascii "// top
-options // c0
-{ LittleEndian
-    // c2
-= // c3a
-  // c3b
-false
-    // c4
-; // c5
-StringPrefixLenType // c6a
-  // c6b
-= // c7
-u32
-    // c8
-;
-    // c9
-ArrayPrefixLenType // c10a
-  // c10b
-= u16
-    // c12
-; } // c14
-packet Party {
-    // c17
-@leftPad // c18
-( '0' ) char[
-    // c22
-12 ] // c24
-Ref , // c26
-repeat // c27a
-  // c27b
-char[ // c28a
-  // c28b
-6 // c29a
-  // c29b
-]
-    // c30
-x // c31a
-  // c31b
-, // c32a
-  // c32b
-} // c33
-packet
-    // c34
-Logon // c35a
-  // c35b
-{ // c36a
-  // c36b
-uint32 clOrdID
-    // c38
-,
-    // c39
-Party // c40
-, // c41
-} // c42a
-  // c42b
-root // c43
-packet
-    // c44
-Ack // c45a
-  // c45b
-{
-    // c46
-zchar[ // c47
-2 // c48a
-  // c48b
-] // c49a
-  // c49b
-f1
-    // c50
-, // c51
-u32
-    // c52
-seqNo // c53a
-  // c53b
-, // c54a
-  // c54b
-u32 // c55
-Side2 // c56a
-  // c56b
-@lengthOf( // c57a
-  // c57b
-Body ) // c59
-, // c60
-match // c61a
-  // c61b
-seqNo // c62a
-  // c62b
-as // c63
-Body
-    // c64
-{ 43
-    // c66
-: Logon // c68a
-  // c68b
-, // c69
-93 : Party // c72
-, } // c74
-,
-    // c75
-} ")).
-Eval vm_compute in ("<<<M80>>>" ++ check (runes_of_ascii "// `tick` ""quote"" 'q'
-packet	rootA{ }
-root
-packet x_y_z {
-// `tick` ""quote"" 'q'
-// packet A { u8 x, }
-@calculatedFrom( """ ++ [28040; 24687]%N ++ runes_of_ascii """  )// a // b
-@tag( 4294967296) @leftPad	(	'\x00')  match Z9_ as len // c
-{0: x_y_z /// triple
-, [ 255 , 007 ] : string_["""" ,
-""`tick`"" , """" ,
-10 ,""it's"" ,
-    """ ++ [233]%N ++ runes_of_ascii "t" ++ [233]%N ++ runes_of_ascii """ ]	: BodyLength	, 4294967296 : u,4294967296
-    // " ++ [27880; 37322]%N ++ runes_of_ascii "
-    :	Header ,
-""packet"": trueish , }
-,
-match int as asx { 007 : leftPad , ""abc"":
-_x
-65535 :stringy ""CRC32"" : int , 255 : A }, match asx as a1  {	[ 0123456789 ]: crc,""packet"" : leftPad ,
-    ""\n"" : //x
-crc
-, 10
-    //x
-    :
-// a // b
-// a // b
-chars ,},
-    i16
-rootA @calculatedFrom(
-""abc"" ) , @lengthOf(Pad)  rootA As`" ++ [233]%N ++ runes_of_ascii "`,match i64_
-    //	t
-    as packetx{	[ """ ++ [28040; 24687]%N ++ runes_of_ascii """ ] :repeatCount
-, 65535 : i8i8 ,
-    } , // a // b
-stringy len , }packet o{
-} packet
-Header {	_x
-string_ ,
-@lengthOf(
-    u8x )
-lengthOf `it's`
-, } options
-    { A // trailing space 
-= ""it's"";
-zchar
-= ""packet"" ; // " ++ [128512]%N ++ runes_of_ascii " emoji
-len
-= 4294967296 ; T= ""abc""int
-    =
-3 ; }
-")).
-Eval vm_compute in ("<<<M168>>>" ++ check (runes_of_ascii "packet // trailing space 
-crc {	match	trueish
-    as pack {[// trailing space 
-007
-    , ""`tick`""
-    , 42 ,3 ,
-""x y"" ] :
-    // " ++ [128512]%N ++ runes_of_ascii " emoji
-    u128
-, } , // packet A { u8 x, }
-@tag( 255
-)
-    lengthOf
-    // " ++ [128512]%N ++ runes_of_ascii " emoji
-    lengthOf , repeat zchar[ 0123456789]
-    calculatedFrom`" ++ [233]%N ++ runes_of_ascii "` , // trailing space 
-@calculatedFrom(
-""" ++ [28040; 24687]%N ++ runes_of_ascii """ ) repeat/// triple
-f32a ,repeat char[]
-// packet A { u8 x, }
-/// triple
-msg_type
-`u8 x,` ,
-    x @calculatedFrom( ""{,}"" ) , f32 uint8x// packet A { u8 x, }
-`two words`,
-    char[  0 ]
-i8i8 , @calculatedFrom(
-""1"" ) rootA BodyLength,
-repeat string a1 //	t
-, } root// " ++ [128512]%N ++ runes_of_ascii " emoji
-packet
-// c
-// " ++ [27880; 37322]%N ++ runes_of_ascii "
-metadata
-{ @calculatedFrom( ""abc"" ) options1 // trailing space 
-Header ,
-// @lengthOf(
-// " ++ [27880; 37322]%N ++ runes_of_ascii "
-}root
-packet charz{
-repeat stringy ,@tag( 3 // trailing space 
-)
-    Foo x_y_z`{ , }` ,
-    char[
-    1]
-Logon
-@lengthOf( float)
-,	int8
-    int
-    ,
-    } //	t
-packet Packet { char[] zchar
-//x
-// " ++ [128512]%N ++ runes_of_ascii " emoji
-`
-`
-    // c
-    , }
-")).
-Eval vm_compute in ("<<<M4253>>>" ++ check (runes_of_ascii "
-options{ StringPrefixLenType =u32 ;ArrayPrefixLenType  =
-
-u8	;
-
-FixedStringPadFromLeft
-=
-	false
-;
-
-}
-
-packet
-Logon
-	{
-
-i8
-
-venue,
-    int16  f1 , zchar[8	]
-Acct
-, repeat
-
-    InNote16{InQty73 
-{
-float32 tag7 
-,}	,
-
-    f32
-Acct
-, zchar[
-
-5
-    ]sym
-, } 
-,
-uint16  Side2
-,
-i32  lastPx
-	,
-    }
-
-packet
-Fill {
-repeat
-
-    InOrderid15
-	{
-
-zchar[	8	]
-	sym
-
-,  repeat
-	char[
-
-2
-    ]
-	OrderId
-
-    ,	repeat
-	Logon  ,InQty82 
-{
-
-char[]
-	Tail	,repeat Logon , float64 
-price
-, f64
-
-Side2
-
-,}, char[
-	12 
-] 
-venue
-	,
-    char[
-4  ]Px,
-
-}
-, 
-@rightPad(	'0'
-
-)
-
-    char[
-2] venue  ,InPrice99 
-{  InAcct72 {
-
-    u8
-pad0
-
-, } , u32 OrderId
-,
-Logon
-	,	},
-}
-
-    root
-    packet
-	Reject
-
-{zchar[
-9 ]
-
-    msgKind
-
-,u32
-    venue,
-
-    u16 
-seqNo@lengthOf( Body ),
-match
-venue
-	as	Body {
-
-57:
-
-    Fill
-    , 
-8
-    :	Logon,
-}
-
-,
-
-u16	Tail@calculatedFrom(
-""CRC32"" )
-, }
-
-")).
-Eval vm_compute in ("<<<M782>>>" ++ check (runes_of_ascii "packet i8i8  { options1 @calculatedFrom(
-""packet""
-// trailing space 
-/// triple
-) `crlf
-line` ,
-    @rightPad (
-' ' //x
-) string
-lengthOf `" ++ [233]%N ++ runes_of_ascii "` ,u64 string_
-, }
-options { options1  = false; } MetaData u
-    { a1
-    options1,
-lengthOf
-// trailing space 
-//	t
-x_y_z `line1
-line2`
-,// c
-MetaDataX
-rootA
-    , zchar[255 ] len ,
-    char[007 ] int //x
-`say ""hi""`,
-// @lengthOf(
-//
-char[ 4294967296] // `tick` ""quote"" 'q'
-stringy, //	t
-} root packet u8x { Z9_ @lengthOf(	Packet
-    ) ,@calculatedFrom(
-""packet"" ) // a // b
-@rightPad (
-'0' //
-)
-@calculatedFrom( ""it's"" )packetx`" ++ [28040; 24687; 31867; 22411]%N ++ runes_of_ascii "`
-    , float64 Packet
-@calculatedFrom(""`tick`"")
-`a\`
-, @leftPad (
-'0' )  match
-len as rootA {
-    // `tick` ""quote"" 'q'
-    ""x y"": uint8x ""1""
-: asx
-, ""a\""b"" :u8x ,
-    } ,// " ++ [27880; 37322]%N ++ runes_of_ascii "
-@lengthOf( tag
-) trueish As , @lengthOf(falsey ) zchar[1 ] a1 , } root packet
-    body
-{ }")).
-Eval vm_compute in ("<<<M613>>>" ++ check (runes_of_ascii "packet o // @lengthOf(
-{repeat char[
-//	t
-// @lengthOf(
-65535] rootA,	}packet repeatCount {@tag( // c
-10)	@lengthOf( _x )  repeat int64 f32a //	t
-`" ++ [233]%N ++ runes_of_ascii "`
-    ,
-    @leftPad
-('0' )@leftPad(
-' '
-    )
-    @tag(3
-    ) // trailing space 
-o`doc` ,
-    // a // b
-    @calculatedFrom( """"
-)string o , @lengthOf( msg_type
-    // c
-    ) match  A as T { [ ""packet""
-, ""a\\""
-    // " ++ [27880; 37322]%N ++ runes_of_ascii "
-    ,
-    1,10 //
-,""x y"" , 3 ]
-: leftPad ,""packet"" : calculatedFrom, //	t
-[255
-//x
-//x
-]:  o
-    , 42  : int ,}
-    , Z9_
-float `a\`
-,
-    char[] u , @lengthOf(i64_ )	string A@lengthOf( // a // b
-int )
-`it's` , @rightPad
-( '0') roots { pack@lengthOf(
-As )
-`crlf
-line`	,// c
-zchar[ 00 ]zchar
-    @lengthOf( // " ++ [128512]%N ++ runes_of_ascii " emoji
-u8x )	,
-    } , @tag(
-    0 )
-@rightPad (
-)
-    @calculatedFrom( """ ++ [128512]%N ++ runes_of_ascii """ )
-f32a lengthOf
-`{ , }` , }
-// `tick` ""quote"" 'q'
-")).
-Eval vm_compute in ("<<<M403>>>" ++ check (runes_of_ascii "  options //x
-{options1= 65535
-; }	root  packet int { match string_ as u8x	{
-0123456789
     // trailing space 
-    : zchar
-    , } ,
-zchar @calculatedFrom( """" ) `` ,
-    repeat T {  metadata@calculatedFrom(
-""x y"" ) , match
-    a1
-    as metadata { // @lengthOf(
-4294967296 : options1 , ""x y""
-    : i8i8 } , repeat leftPad
-    //
-    {	char[42 ] float , }
-    , }, @tag( 65535)
-    char[ 7
-    ]/// triple
-Pad,trueish,
-/// triple
-//
-Header { // @lengthOf(
-char[4294967296
-    ]
-    /// triple
-    repeatCount @calculatedFrom(""packet"" ) , // packet A { u8 x, }
-}, } MetaData float { repeatCount metadata `crlf
-line` ,asx lengthOf	, char[] roots
-`two words`  ,
+    repeat zchar {
+        i64_ @calculatedFrom(""" ++ [233]%N ++ runes_of_ascii "t" ++ [233]%N ++ runes_of_ascii """) `line1
+                line2`,
+        match matchKey as zchar {
+            ""1"" : As,
+            [0] : f32a,
+            [""x y""] : body,
+            ""it's"" : _x,
+            [""" ++ [28040; 24687]%N ++ runes_of_ascii """, 007] : matchKey,
+            ""x y"" : x_y_z,
+        },
+        zchar[7] metadata @lengthOf(_x) `// not a comment`,
+        float @lengthOf(matchKey),
+    },
+    packetx @calculatedFrom(""// no comment""),
+    roots @lengthOf(falsey),// " ++ [128512]%N ++ runes_of_ascii " emoji
+    u8 calculatedFrom `{ , }`,
+    char[10] repeatCount `crlf
+        line`,
+    @lengthOf(float)
+    int16 int `two words`,
+    repeat u64 x,
+    i8i8 @lengthOf(Packet) `" ++ [28040; 24687; 31867; 22411]%N ++ runes_of_ascii "`,
+}")).
+Eval vm_compute in ("<<<M390>>>" ++ check (runes_of_ascii "packet calculatedFrom {
+    i8 i8i8 ,//
+@tag(3 )// trailing space 
+repeat	uint16 u128 , u64 x_y_z``,@tag( 00
+    ) @leftPad ( // " ++ [128512]%N ++ runes_of_ascii " emoji
+' ') u
+//x
 // trailing space 
-//
-string  Pad  ,
-    calculatedFrom
+{//x
+match // `tick` ""quote"" 'q'
+uint8x as i64_{007 : As
+    ,
+007
+    : len
+, 42//
+:
+asx , 10 :
+    // trailing space 
+    BodyLength 0123456789 :
+calculatedFrom // " ++ [128512]%N ++ runes_of_ascii " emoji
+,
+[ 3 ,
+""it's""  ,""\n"" // trailing space 
+, """ ++ [28040; 24687]%N ++ runes_of_ascii """ , 0123456789
+, 42  ,
+255 ,
+""" ++ [233]%N ++ runes_of_ascii "t" ++ [233]%N ++ runes_of_ascii """] :
+//x
+//	t
+tag ,
+    } // trailing space 
+,
+    match pack
+    // `tick` ""quote"" 'q'
+    as charz {""CRC32"" :int
+}
+,len
+@calculatedFrom(
+// a // b
 /// triple
-// @lengthOf(
-zchar , char T
-    `a\`	, } /// triple")).
-Eval vm_compute in ("<<<M4381>>>" ++ check (runes_of_ascii "root packet body {
+""packet"" )  , }
+,}
+    packet calculatedFrom
+{	repeat packetx{ repeat string
+    options1 , }
+    ,int64 msg_type, @tag( 3 ) leftPad float
+    , match body as /// triple
+Pad { 255:calculatedFrom , [
+""it's""
+, """" ,
+""CRC32""	,
+4294967296 , 10  ,
+""" ++ [233]%N ++ runes_of_ascii "t" ++ [233]%N ++ runes_of_ascii """  ,
+0123456789
+    ]	: trueish 10 :Z9_ , [
+    ""a\\""
+    ] : roots	,
+    // c
+    0123456789
+: rootA , },
+}options
+{	options1=0123456789 } options
+{  }// " ++ [27880; 37322]%N ++ runes_of_ascii "
+root
+packet asx{ @lengthOf(	a1 ) match u8x as lengthOf
+{
+// `tick` ""quote"" 'q'
+//x
+[ 00, 00 ]:
+    Packet
+    ,  [  ""CRC32""
     /// triple
-    crc x_y_z `say ""hi""`,
-    float _x,
-    T `a\`,
-    uint64 MetaDataX,
-    repeat zchar[7] calculatedFrom ``,
-    uint32 len `a\`,
-}/// triple
+    , ""abc""  ,
+//x
+// c
+3 ]	:x_y_z[""" ++ [28040; 24687]%N ++ runes_of_ascii """ ,
+7	] :
+    packetx""a	b"" :
+    As""a	b"" : x_y_z , ""// no comment"": u,
+} , zchar[ 0
+// trailing space 
+//x
+]i64_ ,
+match stringy as // " ++ [27880; 37322]%N ++ runes_of_ascii "
+zchar
+    { [ ""// no comment"" ,10
+,1,  """ ++ [128512]%N ++ runes_of_ascii """ ] : Foo
+, } , @rightPad
+    // trailing space 
+    ( '\x00') // trailing space 
+float
+,u64	Foo `say ""hi""`
+, matchKey, // packet A { u8 x, }
+uint16 tag
+    `crlf
+line` ,string // a // b
+u8x
+`two words` ,  string pack @calculatedFrom( ""packet""  )
+, @calculatedFrom( ""`tick`"" //x
+) float64 Logon , }
+// " ++ [128512]%N ++ runes_of_ascii " emoji
+")).
+Eval vm_compute in ("<<<M3645>>>" ++ check (runes_of_ascii "packet zchar {
+    char[] string_,
+    // @lengthOf(
+    msg_type,
+    match roots as metadata {
+        3 : Logon,
+        [
+            ""a\\"", ""1"", 3, 00, ""a\\"",
+            7, 65535, 3
+        ] : x_y_z,
+        0123456789 : o,
+        ""\" ++ [233]%N ++ runes_of_ascii """ : x,
+        ""CRC32"" : Foo,
+    },
+    char Header `u8 x,`,
+}//	t
 
 options {
 }
 
-packet a1 {
-    @tag(1)
-    Logon @lengthOf(options1) `{ , }`,
-    @calculatedFrom(""abc"")
-    /// triple
-    f32a {
-        leftPad {
-            // trailing space 
-            o matchKey ``,
-        },
-        int32 int ``,
-        char[007] zchar @lengthOf(Z9_) `tab	here`,
-        char[1] falsey,
+packet As {
+    zchar[10] roots,
+    char[7] calculatedFrom @lengthOf(body),
+    char stringy @lengthOf(metadata),
+    Pad u128,
+    @calculatedFrom(""it's"")
+    Z9_,
+    match falsey as MetaDataX {
+        4294967296 : float,
+        //x
+        3 : Pad,
+        1 : T,
     },
-    repeat int16 Z9_,
-    match zchar as zchar {
-        ""packet"" : x_y_z,
-        [3, 0, 0123456789, ""CRC32"", ""CRC32""] : len,
-        [0, 4294967296] : Packet,
-        [65535] : options1,
-        [10] : u128,
-    },// packet A { u8 x, }
+    @tag(3)
+    char[] A @calculatedFrom(""it's""),
+    o tag,
+    @lengthOf(x)
+    zchar[4294967296] rootA `
+    `,
+}
+
+root packet Logon {
+    repeat _x {
+        leftPad `crlf
+        line`,
+    },
+    repeat i8 Packet,
+    MetaDataX `// not a comment`,
+    asx `two words`,
+    repeat lengthOf tag,
+    @calculatedFrom(""CRC32"")
+    // @lengthOf(
+    match repeatCount as BodyLength {
+        """ ++ [128512]%N ++ runes_of_ascii """ : len,
+        [
+            255, ""a\\"", 0123456789, ""CRC32"", 7,
+            42
+        ] : repeatCount,
+    },
+    i64_ msg_type `crlf
+    line`,
+}
+
+packet repeatCount {
+    @calculatedFrom(""a\""b"")
+    match a1 as matchKey {
+        00 : options1,
+        4294967296 : x_y_z,
+        [3, ""a	b"", 0123456789] : i64_,
+        0 : leftPad,
+        ""`tick`"" : int,
+        [""" ++ [28040; 24687]%N ++ runes_of_ascii """] : Z9_,
+    },
 }")).
-Eval vm_compute in ("<<<M656>>>" ++ check (runes_of_ascii "packet
-//x
-/// triple
-u8x { MetaDataX
-@lengthOf( charz
-    ) `u8 x,` , @tag(
-    0
+Eval vm_compute in ("<<<M4487>>>" ++ check (runes_of_ascii "
+MetaData crc 
+    // trailing space 
+	// packet A { u8 x, }
+{
+    Z9_ metadata `u8 x,`
+	, 
+}	packet	// packet A { u8 x, }
+
+matchKey 
+{leftPad,
+
+    string
+x
+
+    , 
+	// " ++ [27880; 37322]%N ++ runes_of_ascii "
+  }
+packet
+x  { match
+
+    msg_type
+
+    as 
+MetaDataX	//
+	{ // @lengthOf(
+  00
+
+:
+roots
+
+    , }	, char[255 ] 
+
+    // packet A { u8 x, }
+falsey
+
+`" ++ [28040; 24687; 31867; 22411]%N ++ runes_of_ascii "` 
+    //	t
+    	, 
+@lengthOf(
+Logon
+	) 
+@tag(42  ) @lengthOf(
+    Foo
 )
-zchar[ 7 ]
-    u , i8  len `two words` // c
+    repeat //	t
+	char[ 1]
+	u,
+// packet A { u8 x, }
+	  //	t
+i8 chars@calculatedFrom(
+
+    ""a\""b"" 
+    // @lengthOf(
+    // trailing space 
+),@calculatedFrom(  """ ++ [128512]%N ++ runes_of_ascii """ 	 /// triple
+    )
+    @calculatedFrom(
+""`tick`"") f64 
+Logon  , @lengthOf(
+	calculatedFrom 
+)  //
+
+repeatCount
+{ repeat Packet
+    `two words`,
+
+    match
+	i64_
+as	charz
+{ ""a\\""	:
+	int [	""\" ++ [233]%N ++ runes_of_ascii """,	0123456789
+,""" ++ [28040; 24687]%N ++ runes_of_ascii """
+	]
+:Pad ,
+1
+
+:
+As 
+,""CRC32""
+:
+Header,
+    }  ,	char[
+007  // packet A { u8 x, }
+    ] tag `doc` ,
+
+repeat As `" ++ [233]%N ++ runes_of_ascii "` ,// c
+	}
+    ,
+	MetaDataX
+
+    @calculatedFrom(
+	""""
+	)
+
+`line1
+line2`  , // c
+    } 
+options	{  _x	= false
+	As = zchar[ 65535 ]
+
+    BodyLength
+
+    =  int64
+o = false
+	; calculatedFrom =
+'0'
+; }
+root packet
+Packet
+{// @lengthOf(
+  falsey
+	Packet
+	, 
+@lengthOf( 
+BodyLength  )
+	@lengthOf(uint8x	)@rightPad
+
+    (	)
+string 
+float `// not a comment` 
+,  }
+
+")).
+Eval vm_compute in ("<<<M4254>>>" ++ check (runes_of_ascii "
+options  { 
+Pad	//x
+
+  =""""
+	; // trailing space 
+	  zchar
+=
+    char[ 
+65535  ] 
+Foo  // c
+	= 
+1
+
+;  }
+	packet
+
+    asx  {
+repeat
+    char  u128 
+        // " ++ [27880; 37322]%N ++ runes_of_ascii "
+	//x
+  ,  i16 Pad	,	x
+
+@lengthOf(
+
+Packet
+
+)  `
+` 
+, @tag(
+10
+)  repeat	float32
+
+    i64_`// not a comment`
+
+    , @calculatedFrom(
+
+"""" ) @calculatedFrom(
+    """"
+
+    )
+
+@calculatedFrom(
+	""it's"" ) 
+repeat	BodyLength  Foo ``	, /// triple
+
+	matchKey	As 
+`say ""hi""`,
+@rightPad
+
+    (
+
+    ' '
+
+) i8i8  BodyLength
+
+`" ++ [233]%N ++ runes_of_ascii "`,}
+
+packet
+    Pad
+{
+@tag(
+
+    10
+	)
+    match  o// a // b
+
+as
+
+    zchar{
+
+    [ ""abc""	]
+
+    : 
+i8i8,
+""// no comment""
+
+:
+
+    T
+,  } 
+, u128 f32a
+
+    `{ , }`	,
+
+    @rightPad
+(
+)  float64 Packet
+
+    @lengthOf(
+    chars )
+
+`it's`
+	,@rightPad( '0'  /// triple
+	)  repeat
+    zchar Packet `" ++ [28040; 24687; 31867; 22411]%N ++ runes_of_ascii "`  ,
+	@tag(
+
+00
+	// a // b
+  /// triple
+)
+@rightPad
+
+    ('0' ) match u  as  pack  {
+
+""" ++ [28040; 24687]%N ++ runes_of_ascii """
+
+    : repeatCount
+""abc""
+:
+
+Foo
+	7  :A	, ""\" ++ [233]%N ++ runes_of_ascii """ 	 // packet A { u8 x, }
+	:
+
+    _x
 ,
 }
-MetaData roots {i64 body , // a // b
-u  matchKey
-    , Packet a1 ,  zchar[ 65535  ] Logon/// triple
-`a\` , uint8 A  `line1
-line2`
-,	} root	packet
-body {
-// " ++ [128512]%N ++ runes_of_ascii " emoji
-// c
-repeatCount , u64
-    x_y_z ,
-o
-A `a\` ,
-float32 msg_type
-    ,	} MetaData // trailing space 
-_x
-{ char[ 3 ] As `crlf
-line`,} root packet u8x	{
-    @tag(
-7 ) char[
-    // " ++ [27880; 37322]%N ++ runes_of_ascii "
-    7 //	t
-]
-i8i8
-    @calculatedFrom(""" ++ [233]%N ++ runes_of_ascii "t" ++ [233]%N ++ runes_of_ascii """
+
+    ,  As
+
+    @lengthOf(int
 )
-,f64 // " ++ [128512]%N ++ runes_of_ascii " emoji
-u8x  @lengthOf( float) ,	@tag(255 ) Header Packet `// not a comment` , @leftPad
-    ( ' ' ) @rightPad( ' ')
-f32
-trueish @lengthOf( x_y_z  ) ,
-    }
 //
+	  // " ++ [128512]%N ++ runes_of_ascii " emoji
+  , 
+char[ 7
+
+    ]
+rootA@lengthOf(
+leftPad )`{ , }` 
+,repeat  f64 x,@calculatedFrom(
+""" ++ [128512]%N ++ runes_of_ascii """
+
+)
+char[]  u128 ,
+    }
 ")).
+Eval vm_compute in ("<<<M1403>>>" ++ check (runes_of_ascii "options {
+	StringPrefixLenType = u16;
+	ArrayPrefixLenType = u16;
+}
+
+packet SampleBinary {
+	uint16 MsgType `" ++ [28040; 24687; 31867; 22411]%N ++ runes_of_ascii "`,
+	u16 BodyLenght @lengthOf(Body) `" ++ [28040; 24687; 20307; 38271; 24230]%N ++ runes_of_ascii "`,
+	match MsgType as Body {
+		1 : Logon,
+		2 : Logout,
+		3 : Heartbeat,
+		4 : RiskControlRequest,
+		5 : RiskControlResponse,
+	},
+		@calculatedFrom(""CRC32"")
+	u32 Ckecksum `" ++ [26657; 39564; 21644]%N ++ runes_of_ascii "`,
+}
+
+packet Logon {
+	 @leftPad('0')
+	char[10] UserName `" ++ [29992; 25143; 21517]%N ++ runes_of_ascii "`,
+	string Password `" ++ [23494; 30721]%N ++ runes_of_ascii "`,
+	uint64 ClientId `" ++ [23458; 25143; 31471]%N ++ runes_of_ascii "ID`,
+	u16 HeartbeatInterval `" ++ [24515; 36339; 38388; 38548]%N ++ runes_of_ascii "`,
+}
+
+packet Logout {
+	  @rightPad('0')
+	char[10] UserName `" ++ [29992; 25143; 21517]%N ++ runes_of_ascii "`,
+	uint64 ClientId `" ++ [23458; 25143; 31471]%N ++ runes_of_ascii "ID`,
+}
+
+packet Heartbeat {
+}
+
+packet RiskControlRequest {
+	string UniqueOrderId `" ++ [21807; 19968; 35746; 21333; 21495]%N ++ runes_of_ascii "`,
+	char[16] ClOrdID `" ++ [23458; 25143; 35746; 21333; 21495]%N ++ runes_of_ascii "`,
+	char[3] MarketID `" ++ [24066; 22330]%N ++ runes_of_ascii "id`,
+	char[12] SecurityID `" ++ [35777; 21048; 20195; 30721]%N ++ runes_of_ascii "`,
+	char Side `" ++ [20080; 21334; 26041; 21521]%N ++ runes_of_ascii "`,
+	char OrderType `" ++ [35746; 21333; 31867; 22411]%N ++ runes_of_ascii "`,
+	u64 Price `" ++ [20215; 26684]%N ++ runes_of_ascii "`,
+	u32 Qty `" ++ [25968; 37327]%N ++ runes_of_ascii "`,
+	repeat string ExtraInfo `" ++ [38468; 21152; 20449; 24687]%N ++ runes_of_ascii "`,
+	repeat SubOrder {
+			char[16] ClOrdID `" ++ [23376; 35746; 21333; 21495]%N ++ runes_of_ascii "`,
+			u64 Price `" ++ [23376; 35746; 21333; 20215; 26684]%N ++ runes_of_ascii "`,
+			u32 Qty `" ++ [23376; 35746; 21333; 25968; 37327]%N ++ runes_of_ascii "`,
+		},
+}
+
+packet RiskControlResponse {
+	string UniqueOrderId `" ++ [21807; 19968; 35746; 21333; 21495]%N ++ runes_of_ascii "`,
+	i32 Status `" ++ [29366; 24577]%N ++ runes_of_ascii "`,
+	string Msg `" ++ [32467; 26524; 20449; 24687]%N ++ runes_of_ascii "`,
+	repeat Detail,
+}
+
+packet Detail {
+	string RuleName `" ++ [35268; 21017; 21517; 31216]%N ++ runes_of_ascii "`,
+	u16 Code `" ++ [21407; 22240; 20195; 30721]%N ++ runes_of_ascii "`,
+}")).
+Eval vm_compute in ("<<<M4365>>>" ++ check (runes_of_ascii "packet  lengthOf {
+
+crc  @calculatedFrom( 
+""""
+
+    ) `two words`, 
+@lengthOf(crc
+)
+    // c
+  @calculatedFrom(
+
+    ""x y"" )
+u16 Logon `line1
+line2`
+    ,
+}  MetaData  u128{ 
+}  packet
+len
+	{ 
+match options1
+    as pack
+{
+    00
+
+: 
+BodyLength
+	,
+
+    }
+
+    ,  @calculatedFrom( ""a	b""  )
+    asx Z9_  ``
+	, @rightPad
+()u32 calculatedFrom
+
+    @lengthOf( asx )
+
+`doc`, @calculatedFrom(
+""" ++ [28040; 24687]%N ++ runes_of_ascii """
+)	uint8x ,  repeat  zchar[// " ++ [128512]%N ++ runes_of_ascii " emoji
+	007 ] u128
+,stringy
+{ repeat
+
+zchar[
+
+3
+    ] 
+A
+    ,
+repeat	i64
+
+o/// triple
+
+  ``
+
+,
+f32  // @lengthOf(
+packetx @calculatedFrom( ""\" ++ [233]%N ++ runes_of_ascii """
+),
+packetx	charz 
+,
+    }
+    ,
+match
+
+    int as
+Z9_  {
+	""a\\"" : 
+crc 
+    // " ++ [128512]%N ++ runes_of_ascii " emoji
+  // " ++ [128512]%N ++ runes_of_ascii " emoji
+    ,
+""""
+    /// triple
+: trueish ,	[
+00
+, ""\" ++ [233]%N ++ runes_of_ascii """ , 
+4294967296
+    ]
+	:  Packet
+
+, 
+}, 
+
+/// triple
+
+	// packet A { u8 x, }
+
+	u8
+
+// packet A { u8 x, }
+	/// triple
+  msg_type
+    // @lengthOf(
+	  //
+  	@lengthOf(	i64_  )  ,
+}	root packet
+A
+{
+
+    BodyLength@lengthOf( stringy
+
+    ) ,
+rootA 
+As ,
+	repeat BodyLength
+options1	`a\`,
+}
+
+")).
+Eval vm_compute in ("<<<M3550>>>" ++ check (runes_of_ascii "
+options
+
+{ 
+StringPrefixLenType
+    = u8;
+    ArrayPrefixLenType
+
+    =
+	u32 ;
+	FixedStringPadFromLeft	= 
+false
+
+;
+FixedStringPadChar
+	=	' ';
+
+}
+    packet
+    Party  {repeat 
+i16
+Qty, repeat
+
+    string 
+Tail
+, i8
+OrderId
+
+    ,
+
+i8  msgKind
+    ,
+}
+    packet
+    Ack {
+Party
+,repeat
+InRef20 {  Party,
+
+    int8 tag7
+
+    ,  char[ 5 
+]OrderId,	zchar[ 7  ]  Tail
+
+    , char[] 
+count ,
+    InPrice45
+
+{
+Party	, char[
+1 
+]Px
+
+, 
+}
+, },
+
+char[ 12
+]
+	price , int8 sym,
+}
+packet	Reject
+
+    {repeat
+
+InPrice47 { Party  ,} ,  zchar[ 4
+
+]	x
+
+    , 
+repeat
+Ack  ,
+
+    zchar[
+	2] 
+Ref
+,repeat
+    Party ,
+
+    }packet  Cancel
+{
+Reject,
+
+    repeat
+    string  f1 
+, uint16
+
+OrderId
+
+,
+
+u8
+    Acct  ,
+    int8 msgKind,}  root packet 
+Fill{ u8	count
+
+, char[] 
+tag7
+    ,
+
+zchar[
+7
+]Acct
+,u32
+    OrderId
+	,u32
+Note
+	@lengthOf(
+	Body
+	) 
+,
+	match
+    OrderId  as
+
+Body {
+    106 :Cancel,196
+
+    :
+	Reject 
+, 74 :  Party
+    ,75
+: Ack	,
+}
+    , }
+")).
+Eval vm_compute in ("<<<M4378>>>" ++ check (runes_of_ascii "packet body {
+    match u as f32a {
+        ""// no comment"" : float,
+    },
+    // trailing space 
+    float32 int,
+    char[] tag `u8 x,`,
+    @lengthOf(body)
+    repeat i64_ crc,
+    @leftPad('0')
+    float64 zchar,// packet A { u8 x, }
+    @lengthOf(A)
+    @leftPad()
+    @lengthOf(int)
+    //
+    crc @calculatedFrom(""1""),
+}
+
+root packet body {
+    /// triple
+    @lengthOf(T)
+    repeat u128 `line1
+    line2`,
+    string BodyLength,
+    @calculatedFrom(""x y"")
+    char[] zchar @calculatedFrom(""a\""b"") `" ++ [28040; 24687; 31867; 22411]%N ++ runes_of_ascii "`,
+    falsey trueish,/// triple
+    @rightPad('\x00')
+    @lengthOf(As)
+    @tag(4294967296)
+    repeat char[] uint8x,
+    packetx,
+    @tag(7)
+    //
+    i64 roots @calculatedFrom(""" ++ [233]%N ++ runes_of_ascii "t" ++ [233]%N ++ runes_of_ascii """) `// not a comment`,
+    @calculatedFrom(""x y"")
+    /// triple
+    f64 float @lengthOf(Packet),
+    @tag(4294967296)
+    u32 lengthOf @calculatedFrom(""\" ++ [233]%N ++ runes_of_ascii """),
+    @tag(10)
+    Foo,
+}
+
+packet leftPad {
+}
+
+options {
+    i8i8 = zchar[7]
+}")).
+Eval vm_compute in ("<<<M3513>>>" ++ check (runes_of_ascii "options {
+    LittleEndian = true;
+    StringPrefixLenType = u32;
+    FixedStringPadChar = '0';
+}
+packet Logout {
+    repeat InMsgkind49 {
+        u8 pad0,
+    },
+    repeat char[5] seqNo,
+    repeat u8 price,
+}
+packet Party {
+    zchar[7] Qty,
+}
+packet Logon {
+    repeat InRef10 {
+        string price,
+        char[] sym,
+        repeat Logout,
+    },
+    repeat char[3] count,
+    repeat Party,
+    char[] tag7,
+    @rightPad('0') char[2] clOrdID,
+}
+packet Order {
+    InTail13 {
+        Party,
+    },
+    repeat char[4] count,
+}
+root packet Cancel {
+    Logout,
+    @leftPad('0') char[9] msgKind,
+    string lastPx,
+    string tag7,
+    zchar[1] OrderId,
+    repeat Party,
+    u16 sym,
+    u16 Acct @lengthOf(Body),
+    match sym as Body {
+        [24, 44] : Logout,
+        160 : Order,
+        91 : Logon,
+        43 : Party,
+    },
+    u16 Tail @calculatedFrom(""CR\
+C32""),
+}
+")).
+Eval vm_compute in ("<<<M381>>>" ++ check (runes_of_ascii "MetaData// " ++ [128512]%N ++ runes_of_ascii " emoji
+A  { repeatCount f32a `it's`  ,} root packet rootA { @lengthOf(
+//
+// trailing space 
+Foo ) @rightPad ('0'	)
+@calculatedFrom(
+""{,}"" ) int16 u8x ,
+    @leftPad (	' ' //	t
+) @calculatedFrom( // c
+""it's""
+) f64 metadata `two words`
+    , //x
+char[] T `{ , }` ,}
+    packet crc{ int8 float @lengthOf( u
+    // @lengthOf(
+    )`" ++ [28040; 24687; 31867; 22411]%N ++ runes_of_ascii "`
+    //x
+    , // " ++ [128512]%N ++ runes_of_ascii " emoji
+string options1  `
+`	,
+    @calculatedFrom(
+""x y"" )
+x_y_z o , /// triple
+@tag( 007	)  a1
+@calculatedFrom( ""a\\"" ) ,
+}
+    root
+    packet Foo
+    { repeat i16 chars ,Logon @calculatedFrom(""\" ++ [233]%N ++ runes_of_ascii """ )  ,
+@calculatedFrom(
+""packet""  )
+    x_y_z
+// packet A { u8 x, }
+// trailing space 
+`say ""hi""` ,
+repeat string
+Foo
+, repeat metadata
+i8i8`crlf
+line`
+// packet A { u8 x, }
+// @lengthOf(
+,@calculatedFrom(
+    ""a	b"" ) char[] charz @calculatedFrom(""""
+    )
+    ,}
+")).
+Eval vm_compute in ("<<<M4328>>>" ++ check (runes_of_ascii "packet chars {
+    // c
+    string metadata,
+    i32 u8x @calculatedFrom(""`tick`""),
+    repeat char[] stringy,
+    char[10] pack `u8 x,`,
+    o,
+    falsey @calculatedFrom(""`tick`"") `it's`,
+    @leftPad()
+    u32 body `u8 x,`,
+    @calculatedFrom(""packet"")
+    char metadata `// not a comment`,
+    // " ++ [27880; 37322]%N ++ runes_of_ascii "
+    @lengthOf(A)
+    float64 _x @lengthOf(Header),
+    body,
+}
+
+packet Header {
+    falsey,
+    match trueish as lengthOf {
+        ""packet"" : i8i8,
+        ""x y"" : falsey,
+        [""\" ++ [233]%N ++ runes_of_ascii """] : zchar,
+        00 : float,
+        ""\n"" : f32a,
+    },
+    string A `two words`,
+    repeat char[0] Z9_ `two words`,
+    repeat Z9_ x,
+    char trueish,
+}
+
+MetaData x_y_z {
+    float32 x `a\`,
+    u128 i64_ `a\`,
+    x_y_z trueish,
+    u16 i64_,
+}
+
+root packet pack {
+}
+
+options {
+    msg_type = 007;
+}")).
+Eval vm_compute in ("<<<M1010>>>" ++ check (runes_of_ascii "packet int { char[] // a // b
+crc`it's` , } packet metadata{pack
+    Logon , @tag( 00 )
+    len { repeat u8x
+leftPad`" ++ [28040; 24687; 31867; 22411]%N ++ runes_of_ascii "` ,
+repeat u16 i64_ , } , @lengthOf( x
+) repeat T MetaDataX`tab	here`
+    ,match
+    //x
+    matchKey
+    as lengthOf {
+""a\\""
+    :	_x ,	[/// triple
+255 , 00 // `tick` ""quote"" 'q'
+]: chars	,
+[ ""it's"",
+    0 ]// `tick` ""quote"" 'q'
+:
+    crc,0 :matchKey ,
+""\" ++ [233]%N ++ runes_of_ascii """
+// " ++ [128512]%N ++ runes_of_ascii " emoji
+// a // b
+: //
+rootA ""x y"" // trailing space 
+: leftPad,
+}
+    /// triple
+    , @tag(
+    255)float32 options1 @calculatedFrom( ""`tick`"") , @rightPad (  ) i64 Packet `it's` ,repeat zchar[ 255 ] metadata
+`tab	here` , /// triple
+@rightPad ( '\x00' )// trailing space 
+repeat i16 chars `" ++ [233]%N ++ runes_of_ascii "` , A
+/// triple
+// packet A { u8 x, }
+@lengthOf(
+    // c
+    BodyLength ), }
+")).
+Eval vm_compute in ("<<<M423>>>" ++ check (runes_of_ascii "MetaData
+i8i8 {
+A u128  , } /// triple
+packet  tag	{ repeat string_ falsey
+`doc`,repeat Z9_
+{ Header Logon `doc` // packet A { u8 x, }
+,
+int16 uint8x// `tick` ""quote"" 'q'
+@lengthOf( body  ) ,
+char[]  lengthOf , },
+@lengthOf( asx )repeat
+matchKey ,  @leftPad ( ' ' ) @rightPad (
+// " ++ [128512]%N ++ runes_of_ascii " emoji
+// " ++ [27880; 37322]%N ++ runes_of_ascii "
+' ' ) Z9_ `{ , }`
+    , char[
+1]
+    len	`{ , }` ,
+} // trailing space 
+options {
+chars  = ""1""	trueish// c
+= // " ++ [27880; 37322]%N ++ runes_of_ascii "
+""a	b""u =
+true ;crc ='0' ;
+} packet
+leftPad { @leftPad( ' ') // packet A { u8 x, }
+zchar	i64_ ,
+match options1
+    as // c
+string_ {
+[ ""a\""b"" , ""packet"" , ""a\\"" , """ ++ [128512]%N ++ runes_of_ascii """ ] : i64_ ,  42/// triple
+:
+Z9_ ,
+    },
+zchar[
+    00 ]trueish , @rightPad // trailing space 
+( ' '  ) packetx options1
+`line1
+line2` , } //")).
+Eval vm_compute in ("<<<M2>>>" ++ check (runes_of_ascii "
+packet int{ len	T , }MetaData trueish { // packet A { u8 x, }
+}
+    packet BodyLength { @calculatedFrom( ""packet"" )
+@calculatedFrom(
+    ""CRC32"" )
+    // c
+    @tag(
+00 ) char[ 4294967296 ] stringy, @lengthOf(
+leftPad
+)// c
+char zchar ,@lengthOf( MetaDataX	)@tag(10) // " ++ [128512]%N ++ runes_of_ascii " emoji
+@rightPad ( '0') options1 matchKey//
+`{ , }`
+    // packet A { u8 x, }
+    , @tag( 42
+    ) @tag( 1 ) @tag( 10
+) char[] // c
+stringy
+`doc` , msg_type `" ++ [233]%N ++ runes_of_ascii "` ,
+@lengthOf(trueish )body {	repeat o stringy `crlf
+line` , repeat u32 i8i8 ,
+    char[65535] stringy
+`a\` ,
+    //x
+    }
+    ,
+@calculatedFrom(""packet""	) matchKey/// triple
+, @tag( 4294967296 ) uint32 rootA @lengthOf( trueish ) ,string body `u8 x,` , }")).
 Eval vm_compute in ("<<<M853>>>" ++ check (runes_of_ascii "options { metadata =
     7	matchKey= 42 ;
     A= ""`tick`"" ;
@@ -1263,1307 +1189,1347 @@ options {matchKey = // trailing space
 ; }
 /// triple
 ")).
-Eval vm_compute in ("<<<M4500>>>" ++ check (runes_of_ascii "options // c
-{  msg_type
-	= 	 //	t
-  1	; 
-    // a // b
-
-	_x
-=  
-  // packet A { u8 x, }
-    char[];  // a // b
-		pack
-	=	' ' ;
-
-}  MetaData 
-i8i8 {
-i8i8  // " ++ [27880; 37322]%N ++ runes_of_ascii "
-
-roots	, options1
-// " ++ [27880; 37322]%N ++ runes_of_ascii "
-lengthOf ,  _x	Z9_	`// not a comment` ,x
-i8i8`{ , }` ,
-
-    leftPad
-
-BodyLength
-    /// triple
-    , }
-
-    root
-	packet 
-tag
-{	zchar[
-    4294967296
-] 
-// packet A { u8 x, }
-    /// triple
-    Z9_
-    @calculatedFrom(
-    ""abc""
-	)
-
-`" ++ [28040; 24687; 31867; 22411]%N ++ runes_of_ascii "` , char BodyLength	@calculatedFrom(
-	""\n""
-	)
-	`// not a comment`,@leftPad	// c
-      (	' '  // c
-  )
-@rightPad (
-
-    ) repeat
-MetaDataX
-	u	`" ++ [233]%N ++ runes_of_ascii "`
-	, 
-}
-	MetaData
-
-    tag {
-u64
-
-x_y_z
-`
-` ,}")).
-Eval vm_compute in ("<<<M1101>>>" ++ check (runes_of_ascii "
-packet
-    a1 { uint16 MetaDataX @lengthOf( f32a )
-    , @lengthOf(
-leftPad)
-    @tag(
-    00) @tag( 0 )msg_type , match body as x_y_z
-{ """"  : trueish	,["""" , // " ++ [27880; 37322]%N ++ runes_of_ascii "
-00 ]
-    : pack
-    , //x
-0
-:// a // b
-i8i8 /// triple
-, [
-1 , ""// no comment""
-/// triple
+Eval vm_compute in ("<<<M1116>>>" ++ check (runes_of_ascii "packet MetaDataX { Foo , @rightPad( ' '
 // " ++ [128512]%N ++ runes_of_ascii " emoji
-]// trailing space 
-: chars, } ,	repeat char[
-4294967296 // " ++ [27880; 37322]%N ++ runes_of_ascii "
-] stringy,T @calculatedFrom( """ ++ [128512]%N ++ runes_of_ascii """
-),@lengthOf( falsey //	t
-) float64
-    // " ++ [27880; 37322]%N ++ runes_of_ascii "
-    float `a\` , char[]	calculatedFrom@calculatedFrom(	""1"" ),
-// a // b
-//
-float64	zchar `// not a comment` , float32 Header
-    `a\`, //x
-zchar[ 42
-    ]
-As@lengthOf(
-chars )
-,
-    }
-")).
-Eval vm_compute in ("<<<M124>>>" ++ check (runes_of_ascii "packet
-crc// @lengthOf(
-{ @rightPad ( '0' ) char[7
-    // c
-    ]
-matchKey  @calculatedFrom( ""{,}"") , } packet x_y_z  {  @calculatedFrom( ""a\""b"" )
-T
-{ Header
-{
-    // packet A { u8 x, }
-    lengthOf
-packetx
-`// not a comment` ,A
-    i8i8 `crlf
-line` , string o `line1
-line2` ,
-string_ @lengthOf( tag ) `line1
-line2` , },
-    } ,
-match
-lengthOf as	Z9_ {
-""\" ++ [233]%N ++ runes_of_ascii """
-: A , }
-, match rootA as
-matchKey// `tick` ""quote"" 'q'
-{	[""`tick`""// @lengthOf(
-,""x y""
-] :  Packet, }
-, //x
-repeat zchar[
-    1 ]// a // b
-_x
-// " ++ [128512]%N ++ runes_of_ascii " emoji
-/// triple
-, char[]
-    msg_type , A rootA , } //")).
-Eval vm_compute in ("<<<M153>>>" ++ check (runes_of_ascii "packet  BodyLength { @rightPad // packet A { u8 x, }
-()
-i32 packetx
-@lengthOf( leftPad) ,  @lengthOf( MetaDataX
-    ) leftPad
-    ,
-    _x {
-match
-zchar as zchar {
-    [ // `tick` ""quote"" 'q'
-""a\\"" ]
-: crc """ ++ [28040; 24687]%N ++ runes_of_ascii """ :
-Foo ,  1 : trueish ,	42 : rootA , [ 4294967296
-// @lengthOf(
-// `tick` ""quote"" 'q'
-]
-    //	t
-    :
-    float
-    // " ++ [128512]%N ++ runes_of_ascii " emoji
-    ""a\\"": Foo ,}  ,	repeat
-float
-    leftPad, uint8x i8i8 ,char[ 255  ]As// trailing space 
-,	} ,  char[
-    // " ++ [27880; 37322]%N ++ runes_of_ascii "
-    4294967296
-] uint8x`u8 x,` , @leftPad ( )
-float32
-body `two words` , }
-")).
-Eval vm_compute in ("<<<M4081>>>" ++ check (runes_of_ascii "// a // b
-MetaData crc {
-    uint8x len,
-    string BodyLength,
-    asx body `" ++ [233]%N ++ runes_of_ascii "`,
-    calculatedFrom i8i8,
-}
-
-packet Header {
-    @tag(3)
-    int64 uint8x,
-    repeat lengthOf {
-        match x as body {
-            """ ++ [128512]%N ++ runes_of_ascii """ : trueish,
-            3 : MetaDataX,
-            [""it's"", """"] : o,
-            ""CRC32"" : i8i8,
-        },
-    },
-    i64 lengthOf `u8 x,`,
-}
-
-packet pack {
-    @rightPad()
-    @tag(255)
-    repeat string leftPad `crlf
-        line`,
-}
-
-options {
-}
-
-packet Packet {
-    lengthOf,
-}")).
-Eval vm_compute in ("<<<M335>>>" ++ check (runes_of_ascii "packet Logon//x
-{ @calculatedFrom( ""a	b""
-    ) repeat options1 , @calculatedFrom(
-    ""a\\"") // c
-char[] options1 `it's`, @tag(4294967296 ) repeat Logon
-{match trueish as
-    u128
-    {""x y""
-    //	t
-    :// c
-i64_
-    ,
-    [ 4294967296 , 007, 10 ]: i8i8 , } ,
-//
-// @lengthOf(
-T	`u8 x,` ,repeat uint64 T `u8 x,`
-, } , } options // @lengthOf(
-{u128 =// trailing space 
-'0'tag =  true
-    ; Packet  = char[ 0123456789 ] ;
-    Foo = 007 body
-= 3 ;
-    } packet i64_
-{ }
-//x
-")).
-Eval vm_compute in ("<<<M767>>>" ++ check (runes_of_ascii "  root packet x_y_z{ @rightPad (  )repeat char[] int `tab	here`//x
-, @calculatedFrom( ""// no comment"" )
-    // c
-    pack
-, char[
-1 // `tick` ""quote"" 'q'
-]
-int	@calculatedFrom(
-""" ++ [28040; 24687]%N ++ runes_of_ascii """ ) , MetaDataX a1 ,Z9_
-{u16 pack, char[
-0]
-options1, repeat stringy{ /// triple
-i8i8 @lengthOf( int
-    ) , zchar packetx , } ,Packet`// not a comment`
-, } ,
-@rightPad ( ' ' ) uint64 zchar `" ++ [28040; 24687; 31867; 22411]%N ++ runes_of_ascii "` , /// triple
-u16 Header
-    `crlf
-line`,	}options{packetx=  false ;
-    }
-")).
-Eval vm_compute in ("<<<M1139>>>" ++ check (runes_of_ascii "root
-packet metadata{// packet A { u8 x, }
-@rightPad( ' ' // a // b
-) @leftPad (
-'\x00')f64 a1
-    `u8 x,`
-, // trailing space 
-char[ 7
-    ] metadata @lengthOf( Logon
-    )  ,@calculatedFrom( ""\n""
-    ) char[
-    4294967296 ] repeatCount
-, @tag( 65535)
-zchar[ 255 ] chars	@lengthOf(stringy )	, zchar // packet A { u8 x, }
-{ zchar @lengthOf(  crc
-/// triple
-// " ++ [27880; 37322]%N ++ runes_of_ascii "
-) // a // b
-,
-uint64
-    Packet`crlf
-line` ,
-    } ,
-    /// triple
-    } 	 ")).
-Eval vm_compute in ("<<<M1031>>>" ++ check (runes_of_ascii "options {x = ""it's""}MetaData falsey// trailing space 
-{
-char[0123456789 ] lengthOf,
-zchar[0123456789 ] stringy , falsey metadata
-, zchar[007 ]rootA `` , }MetaData
-trueish{  int8 x ,
-// packet A { u8 x, }
-// " ++ [128512]%N ++ runes_of_ascii " emoji
-f32 len , pack BodyLength `a\` ,
-}packet Pad
-{ @leftPad //	t
-(
-'0' ) u8x @calculatedFrom(""CRC32"" ) , }root packet _x { msg_type	{ lengthOf ,  uint32	packetx
-`` , },repeat int64
-zchar `line1
-line2`,body Header,
-}
-")).
-Eval vm_compute in ("<<<M253>>>" ++ check (runes_of_ascii "packet pack
-{ @rightPad (' ' ) A// c
-@calculatedFrom( ""a\\"" )
-// " ++ [128512]%N ++ runes_of_ascii " emoji
-// " ++ [128512]%N ++ runes_of_ascii " emoji
-`
-` , u8
-    f32a, zchar[007 ] rootA
-    `u8 x,`, repeat
-/// triple
-// a // b
-string u128 //
-`u8 x,`, @leftPad( ' ' ) char[ 1 ] repeatCount@calculatedFrom( //x
-""\n"" ) `doc`,
-    o
-,
-falsey
-    leftPad,@calculatedFrom(""a\""b"") @leftPad
-    ('0' )
-//
-// " ++ [27880; 37322]%N ++ runes_of_ascii "
-roots	{
-u8
-zchar @lengthOf(	Logon ) // trailing space 
-,
 // c
+) match options1 as
+    o { ""a\""b""
+// c
+// packet A { u8 x, }
+:
+T[7 , ""// no comment""
 //	t
-} , }")).
-Eval vm_compute in ("<<<M298>>>" ++ check (runes_of_ascii "// a // b
-packet int  { //	t
-pack
-    // trailing space 
-    @lengthOf(// " ++ [27880; 37322]%N ++ runes_of_ascii "
-leftPad
-// @lengthOf(
-// c
-),
-u128 MetaDataX,	char[] charz
-    // a // b
-    @calculatedFrom(
-""\" ++ [233]%N ++ runes_of_ascii """ ) ,calculatedFrom{
-float
-BodyLength,
-}
-, @calculatedFrom(
-""" ++ [233]%N ++ runes_of_ascii "t" ++ [233]%N ++ runes_of_ascii """
-    )  @lengthOf( MetaDataX) match Logon //
-as  i64_{  [0 ,255 , 10, 7
-    // `tick` ""quote"" 'q'
-    , 0123456789 ]
-    :  asx // " ++ [128512]%N ++ runes_of_ascii " emoji
-}
-,
-    }")).
-Eval vm_compute in ("<<<M3667>>>" ++ check (runes_of_ascii "
-options { rootA
-
-    =
-""" ++ [28040; 24687]%N ++ runes_of_ascii """
-    ;	a1
-	= 	 // a // b
-'\x00'
-
-    ;
-	asx=
-' '	}	MetaData
-string_
-    {char[]
-
-i64_
-    `it's`  ,}packet 
-float {
-@calculatedFrom(
-    ""// no comment"" )
-
-repeat
-	char[]
-Z9_, @lengthOf( Foo
-
-)
-	uint16  u @calculatedFrom(
-	""\n""	)
-	, repeat	uint32 a1 ,	// `tick` ""quote"" 'q'
-	Logon 
-
-    // " ++ [128512]%N ++ runes_of_ascii " emoji
-	// " ++ [128512]%N ++ runes_of_ascii " emoji
-		`line1
-line2`	,
-
-}
-	//
-")).
-Eval vm_compute in ("<<<M990>>>" ++ check (runes_of_ascii "packet chars { @rightPad ( ) /// triple
-@tag( 42
-    ) @tag( 00// c
-)	int
-// @lengthOf(
 //
-len
-,zchar[ 4294967296 ]
-    asx `` ,	@rightPad (
-'0'
-)@calculatedFrom(
-/// triple
-/// triple
-""{,}"")@lengthOf( repeatCount )	repeat uint64
-falsey `doc` , repeat zchar[ // packet A { u8 x, }
-0 ] u8x , } MetaData crc{
-uint32 packetx , }
-    packet float{ //
-u128 _x,}")).
-Eval vm_compute in ("<<<M3669>>>" ++ check (runes_of_ascii "MetaData roots {
-    char[42] packetx `u8 x,`,
-}
-
-MetaData len {
-    u128 rootA `
-    `,
-    roots trueish `doc`,
-    uint64 x_y_z,
-    u32 string_,
-    options1 int,
-    i8 charz `it's`,
-}
-
-MetaData int {
-}
-
-packet len {
-    @calculatedFrom(""a\\"")
-    string Header `doc`,
-}
-
-packet o {
-    @leftPad(' ')
-    char[] crc @calculatedFrom(""{,}""),
-}")).
-Eval vm_compute in ("<<<M3212>>>" ++ check (runes_of_ascii "// top
-packet
-    // c0
-Logon
-    // c1
-{
-    // c2
-@tag(
-    // c3
-42
-    // c4
-)
-    // c5
-@rightPad
-    // c6
-(
-    // c7
-' '
-    // c8
-)
-    // c9
-@leftPad
-    // c10
-(
-    // c11
-)
-    // c12
-repeat
-    // c13
-trueish
-    // c14
-{
-    // c15
-string
-    // c16
-T
-    // c17
-,
-    // c18
-}
-    // c19
-,
-    // c20
-}
-    // c21
-")).
-Eval vm_compute in ("<<<M199>>>" ++ check (runes_of_ascii "packet
-    body {
-@rightPad(	'0'	) Packet a1 ,asx ,repeatCount
-// trailing space 
-// packet A { u8 x, }
-{// trailing space 
-repeat int64 falsey , },	@rightPad
-// c
-// a // b
-( '0'
-)	match int
-    // " ++ [27880; 37322]%N ++ runes_of_ascii "
-    as T { 4294967296
-: _x, 00 :  string_// c
-,
-    [""x y""  ] :  stringy, } ,// packet A { u8 x, }
-uint32 x_y_z
-,
-}")).
-Eval vm_compute in ("<<<M1570>>>" ++ check (runes_of_ascii "root packet Foo // " ++ [128512]%N ++ runes_of_ascii " emoji
-{ } options {
-    // a // b
-    tag // `tick` ""quote"" 'q'
-= //	t
-""""
-    ; u8x = zchar[0  ] }
-MetaData
-    int {zchar[ 10]
-lengthOf	`` , i64 u8x`// not a comment` ,MetaDataX pack// `tick` ""quote"" 'q'
-`crlf
-line` `crlf
-line`
-, Logon charz `crlf
-line`
-    ,
-    // a // b
-    }
-")).
-Eval vm_compute in ("<<<M4263>>>" ++ check (runes_of_ascii "root packet i64_ {
-    @tag(4294967296)
-    match lengthOf as charz {
-        1 : T,
-    },
-    repeat char[00] MetaDataX,
-    match Foo as chars {
-        // `tick` ""quote"" 'q'
-        """ ++ [28040; 24687]%N ++ runes_of_ascii """ : charz,
-    },
-}
-
-root packet MetaDataX {
-    @lengthOf(chars)
-    uint16 Foo,
-    Foo,
-}
-
-packet zchar {
-}")).
-Eval vm_compute in ("<<<M1530>>>" ++ check (runes_of_ascii "root packet Foo // " ++ [128512]%N ++ runes_of_ascii " emoji
-{ } options {
-    // a // b
-    tag // `tick` ""quote"" 'q'
-= //	t
-""""
-    ; u8x = zchar[0  ] }
-MetaData
-    int {zchar[ 10]
-lengthOf	`` `` , i64 u8x`// not a comment` ,MetaDataX pack// `tick` ""quote"" 'q'
-`crlf
-line`
-, Logon charz `crlf
-line`
-    ,
-    // a // b
-    }
-")).
-Eval vm_compute in ("<<<M1476>>>" ++ check (runes_of_ascii "root packet Foo // " ++ [128512]%N ++ runes_of_ascii " emoji
-{ } options {
-    // a // b
-    tag // `tick` ""quote"" 'q'
-= //	t
-""""
-    ; u8x = 0 zchar[  ] }
-MetaData
-    int {zchar[ 10]
-lengthOf	`` , i64 u8x`// not a comment` ,MetaDataX pack// `tick` ""quote"" 'q'
-`crlf
-line`
-, Logon charz `crlf
-line`
-    ,
-    // a // b
-    }
-")).
-Eval vm_compute in ("<<<M1496>>>" ++ check (runes_of_ascii "root packet Foo // " ++ [128512]%N ++ runes_of_ascii " emoji
-{ } options {
-    // a // b
-    tag // `tick` ""quote"" 'q'
-= //	t
-""""
-    ; u8x = zchar[0  ] }
-int
-    MetaData {zchar[ 10]
-lengthOf	`` , i64 u8x`// not a comment` ,MetaDataX pack// `tick` ""quote"" 'q'
-`crlf
-line`
-, Logon charz `crlf
-line`
-    ,
-    // a // b
-    }
-")).
-Eval vm_compute in ("<<<M1484>>>" ++ check (runes_of_ascii "root packet Foo // " ++ [128512]%N ++ runes_of_ascii " emoji
-{ } options {
-    // a // b
-    tag // `tick` ""quote"" 'q'
-= //	t
-""""
-    ; u8x = zchar[0   }
-MetaData
-    int {zchar[ 10]
-lengthOf	`` , i64 u8x`// not a comment` ,MetaDataX pack// `tick` ""quote"" 'q'
-`crlf
-line`
-, Logon charz `crlf
-line`
-    ,
-    // a // b
-    }
-")).
-Eval vm_compute in ("<<<M1410>>>" ++ check (runes_of_ascii " packet Foo // " ++ [128512]%N ++ runes_of_ascii " emoji
-{ } options {
-    // a // b
-    tag // `tick` ""quote"" 'q'
-= //	t
-""""
-    ; u8x = zchar[0  ] }
-MetaData
-    int {zchar[ 10]
-lengthOf	`` , i64 u8x`// not a comment` ,MetaDataX pack// `tick` ""quote"" 'q'
-`crlf
-line`
-, Logon charz `crlf
-line`
-    ,
-    // a // b
-    }
-")).
-Eval vm_compute in ("<<<M935>>>" ++ check (runes_of_ascii "options { Packet = '\x00' // " ++ [27880; 37322]%N ++ runes_of_ascii "
-i64_	=3;
-falsey//
-=
-    00
-    ; x_y_z =
-0 // a // b
-; Header =// " ++ [128512]%N ++ runes_of_ascii " emoji
-""a\""b""
-}  MetaData
-    f32a {
-    } options	{ metadata = ""it's""
-    ; } options
-    {}options { calculatedFrom = int32 ;
-    len	= """ ++ [128512]%N ++ runes_of_ascii """
-_x = ""it's""BodyLength= 0123456789 }
-")).
-Eval vm_compute in ("<<<M3681>>>" ++ check (runes_of_ascii "options {
-    uint8x = ""{,}"";
-}
-
-packet asx {
-    match f32a as msg_type {
-        ""{,}"" : int,
-        [
-            3, 1, """ ++ [233]%N ++ runes_of_ascii "t" ++ [233]%N ++ runes_of_ascii """, ""a\\"", """ ++ [128512]%N ++ runes_of_ascii """,
-            ""a\""b"", """ ++ [128512]%N ++ runes_of_ascii """
-        ] : repeatCount,
-    },
-    string Z9_ `{ , }`,
-    u128 {
-        char[] Packet,
-    },//	t
-}")).
-Eval vm_compute in ("<<<M65>>>" ++ check (runes_of_ascii "packet
-    BodyLength { repeat char[
-    1 ]
-options1
-`it's`
-// c
-// " ++ [128512]%N ++ runes_of_ascii " emoji
-, x_y_z{
-    packetx @lengthOf(zchar ) `tab	here` , repeat _x a1 ,
-} , } packet roots{ // `tick` ""quote"" 'q'
-}	options  { Foo	=char[ 1] // " ++ [27880; 37322]%N ++ runes_of_ascii "
-;charz
-=
-1
-; Packet = ""`tick`"" }
-//x
-")).
-Eval vm_compute in ("<<<M3808>>>" ++ check (runes_of_ascii "packet As {
-    @calculatedFrom(""1"")
-    x_y_z f32a,//	t
-    repeat Packet,
-    @leftPad(' ')
-    float64 msg_type @calculatedFrom(""it's"") `
-    `,
-    @lengthOf(i64_)
-    // " ++ [128512]%N ++ runes_of_ascii " emoji
-    trueish @lengthOf(charz),
-    @rightPad('0')
-    Z9_ `" ++ [233]%N ++ runes_of_ascii "`,
-}// c")).
-Eval vm_compute in ("<<<M626>>>" ++ check (runes_of_ascii "packet T {u8 Packet, @leftPad ( ' ' // packet A { u8 x, }
-)
-    // " ++ [128512]%N ++ runes_of_ascii " emoji
-    match o as BodyLength
-    // `tick` ""quote"" 'q'
-    {
-    [ ""it's""
-]: charz
-0 :
-T
-,
-""`tick`"" : stringy }  , } packet stringy {	_x leftPad `say ""hi""`
-    , }
-")).
-Eval vm_compute in ("<<<M3334>>>" ++ check (runes_of_ascii "// top
-packet // c0
-calculatedFrom // c1
-{ // c2
-@tag( // c3
-4294967296 // c4
-) // c5
-u // c6
-msg_type // c7
-, // c8
-char[ // c9
-3 // c10
-] // c11
-crc // c12
-@lengthOf( // c13
-len // c14
-) // c15
-`u8 x,` // c16
-, // c17
-} // c18
-")).
-Eval vm_compute in ("<<<M4158>>>" ++ check (runes_of_ascii "root packet pack {
-    zchar[00] falsey,// " ++ [27880; 37322]%N ++ runes_of_ascii "
-    leftPad,
-    uint64 stringy @calculatedFrom(""\n"") `" ++ [28040; 24687; 31867; 22411]%N ++ runes_of_ascii "`,
-}
-
-root packet pack {
-    @tag(65535)
-    zchar[007] uint8x `crlf
-    line`,
-}
-
-options {
-    Header = ""CRC32"";
-}")).
-Eval vm_compute in ("<<<M2311>>>" ++ check (runes_of_ascii "MetaData Packet { }packet	asx  { @lengthOf( asx) falsey`crlf
-line`
-,
-    }
-    packet x	{uint32// @lengthOf(
-rootA	,u32 u32 options1 `say ""hi""` , @tag( 7
-    )// packet A { u8 x, }
-msg_type @lengthOf(
-stringy	)	, }
-
-")).
-Eval vm_compute in ("<<<M2238>>>" ++ check (runes_of_ascii "MetaData Packet { }packet	root  { @lengthOf( asx) falsey`crlf
-line`
-,
-    }
-    packet x	{uint32// @lengthOf(
-rootA	,u32 options1 `say ""hi""` , @tag( 7
-    )// packet A { u8 x, }
-msg_type @lengthOf(
-stringy	)	, }
-
-")).
-Eval vm_compute in ("<<<M2283>>>" ++ check (runes_of_ascii "MetaData Packet { }packet	asx  { @lengthOf( asx) falsey`crlf
-line`
-,
-    }
-    uint64 x	{uint32// @lengthOf(
-rootA	,u32 options1 `say ""hi""` , @tag( 7
-    )// packet A { u8 x, }
-msg_type @lengthOf(
-stringy	)	, }
-
-")).
-Eval vm_compute in ("<<<M2333>>>" ++ check (runes_of_ascii "MetaData Packet { }packet	asx  { @lengthOf( asx) falsey`crlf
-line`
-,
-    }
-    packet x	{uint32// @lengthOf(
-rootA	,u32 options1 `say ""hi""` , root 7
-    )// packet A { u8 x, }
-msg_type @lengthOf(
-stringy	)	, }
-
-")).
-Eval vm_compute in ("<<<M246>>>" ++ check (runes_of_ascii "packet a1 {//	t
-} root packet float {char[] pack ,
-@tag(
-65535 ) u16 string_
-// trailing space 
-// c
-, repeat rootA	{
-// `tick` ""quote"" 'q'
-//x
-repeat
-    asx charz
-`a\`, }
-    // `tick` ""quote"" 'q'
-    ,}
-")).
-Eval vm_compute in ("<<<M26>>>" ++ check (runes_of_ascii "  packet lengthOf// " ++ [27880; 37322]%N ++ runes_of_ascii "
-{ @leftPad(
-)
-    // a // b
-    @tag( 7
-//x
-/// triple
-)
-u8 BodyLength ,
-    char[ 1
-] chars
-`
-`,
-@tag( 00 )char[ 0]
+, ""{,}"" ,
+7 ,	0 , 0 ,	""packet"" , 1 ] :
+u128 , }	,@calculatedFrom( ""x y"" )// @lengthOf(
+zchar[ 0123456789] Packet	,
+    @rightPad ( '\x00'
     // packet A { u8 x, }
-    Z9_ @lengthOf(
-float) `u8 x,` ,
-}")).
-Eval vm_compute in ("<<<M4502>>>" ++ check (runes_of_ascii "options
-
-    {
-	a1 =
-	char[ 
-1	]	// " ++ [27880; 37322]%N ++ runes_of_ascii "
-;x =
-
-f64
-;  Z9_=
-	//x
+    )  repeat chars	x_y_z , repeat packetx leftPad , match uint8x as crc
+{ [ """ ++ [233]%N ++ runes_of_ascii "t" ++ [233]%N ++ runes_of_ascii """  , ""CRC32"" ]
+// packet A { u8 x, }
 //
-	  char[	3
-    ]
-	;Z9_	= 
-'\x00'x_y_z
-    =
-zchar[
-10]
-;
-	}	packet x_y_z	{ 
-chars  trueish `it's`
-
-// " ++ [128512]%N ++ runes_of_ascii " emoji
-
-//x
-    	, } ")).
-Eval vm_compute in ("<<<M4359>>>" ++ check (runes_of_ascii "options {
-    FixedStringPadChar = '0';
-}
-
-packet Q {
-    zchar[4] z,
-    @rightPad('\x00')
-    char[3] n,
-    char[5] d,
-}
-
-root packet R {
-    Q,
-    zchar[8] top,
-    repeat zchar[2] zs,
-}")).
-Eval vm_compute in ("<<<M705>>>" ++ check (runes_of_ascii "  options { x=zchar[ 42 ]
-//	t
-// a // b
-;  }
-// @lengthOf(
-// trailing space 
-packet
-matchKey { } options{ Header /// triple
-= char[] leftPad =
-    false charz = true; Header = 1 }")).
-Eval vm_compute in ("<<<M1114>>>" ++ check (runes_of_ascii "
-packet stringy{ @tag( 0
-    )// packet A { u8 x, }
-repeatCount ,@calculatedFrom( """"
-)body	falsey,
-    @lengthOf(// " ++ [27880; 37322]%N ++ runes_of_ascii "
-chars
-) repeat x_y_z `two words`	, repeatCount Pad , }
-")).
-Eval vm_compute in ("<<<M3580>>>" ++ check (runes_of_ascii "options {
-    roots = uint8;
-    asx = ' ';
-}
-
-options {
-}
-
-root packet Packet {
-    @lengthOf(T)
-    @calculatedFrom(""abc"")
-    @calculatedFrom(""1"")
-    A lengthOf,
-}")).
-Eval vm_compute in ("<<<M83>>>" ++ check (runes_of_ascii "packet // trailing space 
-msg_type { repeat string
-// `tick` ""quote"" 'q'
-// @lengthOf(
-BodyLength  `two words`
-// packet A { u8 x, }
-// packet A { u8 x, }
+: body
 , }
+,@calculatedFrom(
+""it's"" ) i8 zchar ,@lengthOf( MetaDataX )@rightPad ( ) @lengthOf( falsey) int , i8
+trueish `say ""hi""` ,
+@lengthOf(
+matchKey	)repeat A // trailing space 
+`a\` ,//x
+}
 ")).
-Eval vm_compute in ("<<<M944>>>" ++ check (runes_of_ascii "packet crc {
-    } MetaData/// triple
-Packet { Logon
-    Pad `line1
-line2` ,u8 pack ,// a // b
-} options
-    // c
-    { falsey
-=  ""it's"" len = """ ++ [28040; 24687]%N ++ runes_of_ascii """ ; }
-")).
-Eval vm_compute in ("<<<M93>>>" ++ check (runes_of_ascii "MetaData  falsey { i64
-    A // " ++ [27880; 37322]%N ++ runes_of_ascii "
-, string
-Header
-,	zchar[	10 ]
-Foo `" ++ [28040; 24687; 31867; 22411]%N ++ runes_of_ascii "`
+Eval vm_compute in ("<<<M774>>>" ++ check (runes_of_ascii "MetaData
+chars{ } root packet
+leftPad
+{
+@calculatedFrom(// " ++ [128512]%N ++ runes_of_ascii " emoji
+""it's"" ) @calculatedFrom( ""\n"")@leftPad
+( '\x00' )
+repeat zchar[10
+]Z9_ `" ++ [28040; 24687; 31867; 22411]%N ++ runes_of_ascii "`
+, } root // @lengthOf(
+packet matchKey
+{ @leftPad
+( '0' ) zchar[ 3
+    // trailing space 
+    ]
+As,
+A
+    asx ,
+@lengthOf(
+    // packet A { u8 x, }
+    int
+)
+    @leftPad ( ) repeat string	chars	, @tag( 0123456789
+)@tag( 007
+) match
+    MetaDataX
+    as	charz {
+7 :	x_y_z
+, [
+    ""packet""
     // @lengthOf(
-    ,packetx
-    body, f32a  MetaDataX `it's`,  }
-")).
-Eval vm_compute in ("<<<M3985>>>" ++ check (runes_of_ascii "  options{
+    ]: //x
+roots , [""\n"" ]	:
+A
+, 7 :T , 42  : matchKey  ""x y""
+: i64_ , } , } // " ++ [27880; 37322]%N ++ runes_of_ascii "
+options {body
+    = ""1""  ; x =char[/// triple
+10
+] ; } 	 ")).
+Eval vm_compute in ("<<<M4266>>>" ++ check (runes_of_ascii "
 
-    }
-	MetaData 
-    // c
-      x_y_z{	u32
+  // top
+  packet
+	// c0
+  trueish
+// c1
+{
 
-u8x `line1
-line2`	,
-    float64	u // a // b
+// c2
 
-	`line1
-line2` ,	} 	 // @lengthOf(
+repeat 
+      // c3
+    u32
+
+// c4
+	MetaDataX
+	    // c5
+`doc`
+        // c6
+, 
+	    // c7
+
+Header
+// c8
+{
+    // c9
+  packetx 
+        // c10
+    o
+// c11
+  `u8 x,` 
+// c12
+    ,
+
+// c13
+    	} 
+// c14
+    	, 
+    // c15
+  @leftPad
+// c16
+  (
+	// c17
+
+'\x00' 
+	    // c18
+  ) 
+    // c19
+  repeat 
+	// c20
+
+  char[
+
+// c21
+  0123456789
+	// c22
+
+]
+    // c23
+  repeatCount 
+// c24
+,
+        // c25
+
+  }
+    // c26
+packet
+	    // c27
+  Packet 
+  // c28
+    	{ 
+	// c29
+	} 
+    // c30
  
 ")).
-Eval vm_compute in ("<<<M1658>>>" ++ check (runes_of_ascii "root packet /// triple
-rootA {	i32
-MetaDataX@calculatedFrom( ""CRC32"" ""CRC32"" ) `line1
-line2` , } MetaData BodyLength {
-u8
-rootA, } // c")).
-Eval vm_compute in ("<<<M120>>>" ++ check (runes_of_ascii "root
-packet Header
-    // packet A { u8 x, }
-    { // " ++ [27880; 37322]%N ++ runes_of_ascii "
+Eval vm_compute in ("<<<M472>>>" ++ check (runes_of_ascii "packet
+    chars{@lengthOf(
+//
+// packet A { u8 x, }
+Foo
+    ) @tag(
+65535 )@calculatedFrom(  ""a	b""
+) match stringy as
+    float { 10
+:trueish ,[ 4294967296 ,""a\\""
+/// triple
+// trailing space 
+,255 , ""a\""b"" ,0,""" ++ [128512]%N ++ runes_of_ascii """, ""`tick`""] :Header }
+    ,
+}packet u8x { int
+    //
+    @calculatedFrom(
+    """ ++ [233]%N ++ runes_of_ascii "t" ++ [233]%N ++ runes_of_ascii """
+) // packet A { u8 x, }
+`" ++ [28040; 24687; 31867; 22411]%N ++ runes_of_ascii "` //	t
+,@leftPad
+( )A int
+    , @tag( 10
+    )
+match roots // `tick` ""quote"" 'q'
+as a1{ ""x y"" : u // `tick` ""quote"" 'q'
+,
+    }
+,} MetaData falsey {	i8 metadata
+    `{ , }`
+, } // trailing space ")).
+Eval vm_compute in ("<<<M976>>>" ++ check (runes_of_ascii "root packet uint8x{ @tag( 7 ) @leftPad ( ) // a // b
+repeat Logon {  chars @calculatedFrom( /// triple
+""x y""  )	`tab	here`
+    //x
+    ,
+match falsey
+// `tick` ""quote"" 'q'
+// c
+as uint8x { 7
+    :
+Logon,[ ""\n""
+,42
+    // trailing space 
+    ]
+:repeatCount ,
+10 : x , """ ++ [28040; 24687]%N ++ runes_of_ascii """
+    :i64_ , // c
+}
+    ,u128
+    @calculatedFrom( ""a	b"") `crlf
+line`  ,  }
+// " ++ [27880; 37322]%N ++ runes_of_ascii "
+// `tick` ""quote"" 'q'
+,
+    } packet charz
+    //x
+    { @lengthOf( Packet)
+    // " ++ [27880; 37322]%N ++ runes_of_ascii "
+    i64 // trailing space 
+lengthOf
+`tab	here` ,/// triple
+}")).
+Eval vm_compute in ("<<<M562>>>" ++ check (runes_of_ascii "MetaData	Z9_
+    { char[ 00 ] i64_ `say ""hi""` ,
+char
+Foo
+, char[	10 ] uint8x ,zchar[ 65535 ]
+    float // @lengthOf(
+`// not a comment` , f32
+body `two words` , //x
+i32
+    body
+    `{ , }` //	t
+,
+    } root
+// trailing space 
+// trailing space 
+packet// @lengthOf(
+i64_{
+    // @lengthOf(
+    }
+MetaData options1 { i64 i8i8
+`" ++ [28040; 24687; 31867; 22411]%N ++ runes_of_ascii "` , Logon metadata
+    `tab	here` , i64_ calculatedFrom // c
+`" ++ [28040; 24687; 31867; 22411]%N ++ runes_of_ascii "`	,}
+options
+{
+charz=
+""a\""b"" ;
+chars = ' ' ; Header = 10 ;  i64_ =""\n"" ;	}
+")).
+Eval vm_compute in ("<<<M852>>>" ++ check (runes_of_ascii "packet charz	{ @lengthOf(
+x_y_z
+    )match
+msg_type as msg_type{ ""a	b"" :
+packetx ,}
+, repeat	zchar[255 ] // a // b
+i8i8 `tab	here` ,
+    char[	255] i8i8 @lengthOf(
+    i64_/// triple
+)// c
+, }
+root
+packet matchKey { zchar[3 ] body`crlf
+line` ,
+@calculatedFrom(
+    ""x y"" )
+char[	00 ]leftPad `u8 x,` ,} // packet A { u8 x, }
+packet u8x  { @tag(00 ) metadata
+    {
+    repeat lengthOf
+    {zchar[
+0 ] _x @calculatedFrom( ""it's""  ) `say ""hi""`
+, } , }	,
+}
+")).
+Eval vm_compute in ("<<<M844>>>" ++ check (runes_of_ascii "packet
+u128	{ string MetaDataX
 @lengthOf(
-rootA // a // b
-) int8 Foo//
-@lengthOf(	uint8x)`tab	here`
-,}
-")).
-Eval vm_compute in ("<<<M299>>>" ++ check (runes_of_ascii "
-packet a1
-{ match i8i8
-    as repeatCount
+matchKey ) , @lengthOf( calculatedFrom )
+// " ++ [128512]%N ++ runes_of_ascii " emoji
+// " ++ [128512]%N ++ runes_of_ascii " emoji
+string // packet A { u8 x, }
+uint8x `it's` , As @calculatedFrom(	""" ++ [233]%N ++ runes_of_ascii "t" ++ [233]%N ++ runes_of_ascii """)
+    ,
+} MetaData repeatCount{
     // c
-    { [ 00
-    ] : crc, 3 :f32a 7 : matchKey , 0123456789	: float
-    } , }
+    zchar[
+    7 ]	msg_type // " ++ [128512]%N ++ runes_of_ascii " emoji
+,// @lengthOf(
+string trueish,u
+As`doc`  ,
+zchar
+T	, string roots// c
+`doc`,
+} root packet o //
+{repeat zchar[ 007
+// a // b
+//x
+] u8x , repeat	char[4294967296 ]
+    x ,u8x
+    `{ , }` , }")).
+Eval vm_compute in ("<<<M646>>>" ++ check (runes_of_ascii "root	packet	options1 {@rightPad (
+' ' ) calculatedFrom @calculatedFrom(""x y"") , @rightPad	()
+match  lengthOf as
+    Logon
+    {""1"" //
+:Z9_,""it's""	:/// triple
+metadata,
+}	, @lengthOf(  o)match
+options1
+as//	t
+As {
+    255 :
+u8x,	""""
+:
+    uint8x , [ 007, ""`tick`"" , 0123456789]
+:
+    // `tick` ""quote"" 'q'
+    T ,""\" ++ [233]%N ++ runes_of_ascii """ : //x
+As 7 // a // b
+: Z9_ ,},
+} MetaData pack	{
+    string As
+    , Header body `two words`, i32
+f32a ,}
 ")).
-Eval vm_compute in ("<<<M1640>>>" ++ check (runes_of_ascii "root packet /// triple
-rootA }	i32
+Eval vm_compute in ("<<<M736>>>" ++ check (runes_of_ascii "options {} packet
+calculatedFrom { } packet T{ @tag(
+    42 ) match	len as
+matchKey {
+007  :
+o
+    , ""a\""b""
+: calculatedFrom [  00//
+,
+42  ,
+0 , 00 , 7 ]:
+trueish
+,	""packet"" // @lengthOf(
+: MetaDataX , }, int @calculatedFrom( ""a\""b""
+)`" ++ [233]%N ++ runes_of_ascii "` ,
+@lengthOf(zchar) @tag( 65535 ) repeat string // c
+uint8x , } MetaData leftPad
+    // `tick` ""quote"" 'q'
+    {
+}
+    //
+    packet tag {	repeat Z9_ x_y_z `a\` ,}
+")).
+Eval vm_compute in ("<<<M4222>>>" ++ check (runes_of_ascii "root packet metadata {
+    // packet A { u8 x, }
+    @rightPad(' ')
+    @leftPad('\x00')
+    f64 a1 `u8 x,`,// trailing space 
+    char[7] metadata @lengthOf(Logon),
+    @calculatedFrom(""\n"")
+    char[4294967296] repeatCount,
+    @tag(65535)
+    zchar[255] chars @lengthOf(stringy),
+    zchar {
+        zchar @lengthOf(crc),
+        uint64 Packet `crlf
+        line`,
+    },
+    /// triple
+}")).
+Eval vm_compute in ("<<<M3507>>>" ++ check (runes_of_ascii "options {
+    LittleEndian = false;
+    StringPrefixLenType = u32;
+    ArrayPrefixLenType = u16;
+}
+packet Party {
+    @leftPad('0') char[12] Ref,
+    repeat char[6] x,
+}
+packet Logon {
+    uint32 clOrdID,
+    Party,
+}
+root packet Ack {
+    zchar[2] f1,
+    u32 seqNo,
+    u32 Side2 @lengthOf(Body),
+    match seqNo as Body {
+        43 : Logon,
+        93 : Party,
+    },
+}
+")).
+Eval vm_compute in ("<<<M116>>>" ++ check (runes_of_ascii "options//	t
+{
+BodyLength
+    = ""{,}"" tag	=
+    ""// no comment"" ; } options {
+    charz
+= '\x00' ; // a // b
+repeatCount
+= 255// c
+; _x
+=
+    """ ++ [128512]%N ++ runes_of_ascii """
+    ; Foo= '0'	a1 ='0'
+//x
+//
+}root packet falsey { i64 packetx@lengthOf( Header//	t
+)`" ++ [28040; 24687; 31867; 22411]%N ++ runes_of_ascii "` ,
+len @lengthOf( roots )
+`a\` , zchar	@lengthOf( MetaDataX
+    //x
+    )
+    `line1
+line2`
+    , } // packet A { u8 x, }")).
+Eval vm_compute in ("<<<M528>>>" ++ check (runes_of_ascii "options  { charz
+    = char[ 0123456789
+] zchar= float32 ;} packet
+As
+    { x_y_z crc `{ , }` ,	} root
+    packet
+body { @lengthOf( Logon
+) Header repeatCount`it's`
+,	char[ /// triple
+255 ]
+u128@lengthOf( uint8x
+// " ++ [128512]%N ++ runes_of_ascii " emoji
+// a // b
+),
+    // a // b
+    repeat repeatCount`doc` //x
+,
+@lengthOf( packetx ) Z9_ x_y_z
+    // " ++ [27880; 37322]%N ++ runes_of_ascii "
+    `" ++ [28040; 24687; 31867; 22411]%N ++ runes_of_ascii "` ,}")).
+Eval vm_compute in ("<<<M3516>>>" ++ check (runes_of_ascii "options
+{
+
+    LittleEndian=
+    true;ArrayPrefixLenType
+=u64
+    ; 
+FixedStringPadFromLeft=
+
+    false 
+;}	packet
+	Quote{
+}
+    root  packet
+    Order
+{
+
+i64 Side2 , Quote
+, u32
+
+Px
+
+    ,
+	match
+Px
+as
+
+    Body
+    {
+    [  119 ,
+	147]
+    :
+Quote	,
+	}
+,
+u16
+    Flags	@calculatedFrom(
+
+    ""CRC32"" )
+    , 
+}
+
+")).
+Eval vm_compute in ("<<<M3725>>>" ++ check (runes_of_ascii "
+
+  root packet 
+Foo// " ++ [128512]%N ++ runes_of_ascii " emoji
+
+{ }options
+    {
+    // a // b
+		tag	// `tick` ""quote"" 'q'
+      =//	t
+"""";	u8x= 
+zchar[ 
+0]
+
+}  MetaData 
+int { zchar[
+    10
+	]lengthOf
+
+`` ,
+
+i64 u8x `// not a comment`	,
+
+pack
+    MetaDataX	// `tick` ""quote"" 'q'
+      `crlf
+line` , 
+Logon
+    charz `crlf
+line`,
+	// a // b
+	  }
+")).
+Eval vm_compute in ("<<<M378>>>" ++ check (runes_of_ascii "options
+{//
+matchKey//x
+=
+42	x
+    = '0';
+charz= true
+;  }MetaData	BodyLength
+{
+uint8 pack , zchar[ 1
+]float, float32 x_y_z `` ,	u32 _x	, i16 body, } // a // b
+MetaData asx { leftPad falsey ,
+char[] float	,
+char[] // `tick` ""quote"" 'q'
+u128
+    ,  char[]	float
+, u64 // " ++ [128512]%N ++ runes_of_ascii " emoji
+tag
+,
+    //	t
+    }
+")).
+Eval vm_compute in ("<<<M1445>>>" ++ check (runes_of_ascii "root packet Foo // " ++ [128512]%N ++ runes_of_ascii " emoji
+{ } options {
+    // a // b
+    tag tag // `tick` ""quote"" 'q'
+= //	t
+""""
+    ; u8x = zchar[0  ] }
+MetaData
+    int {zchar[ 10]
+lengthOf	`` , i64 u8x`// not a comment` ,MetaDataX pack// `tick` ""quote"" 'q'
+`crlf
+line`
+, Logon charz `crlf
+line`
+    ,
+    // a // b
+    }
+")).
+Eval vm_compute in ("<<<M1460>>>" ++ check (runes_of_ascii "root packet Foo // " ++ [128512]%N ++ runes_of_ascii " emoji
+{ } options {
+    // a // b
+    tag // `tick` ""quote"" 'q'
+= //	t
+""""
+    ; ; u8x = zchar[0  ] }
+MetaData
+    int {zchar[ 10]
+lengthOf	`` , i64 u8x`// not a comment` ,MetaDataX pack// `tick` ""quote"" 'q'
+`crlf
+line`
+, Logon charz `crlf
+line`
+    ,
+    // a // b
+    }
+")).
+Eval vm_compute in ("<<<M1620>>>" ++ check (runes_of_ascii "root packet Foo // " ++ [128512]%N ++ runes_of_ascii " emoji
+{ } options {
+    // a // b
+    tag // `tick` ""quote"" 'q'
+= //	t
+""""
+    ; u8x = zchar[0  ] }
+MetaData
+    int {zchar[ 10]
+lengthOf	`` , i64 u8x`// not a comment` ,MetaDataX pack// `tick` ""quote"" 'q'
+`crlf
+line`
+, Logon charz `crlf
+line`
+    ,
+    // a // b
+    ?}
+")).
+Eval vm_compute in ("<<<M1556>>>" ++ check (runes_of_ascii "root packet Foo // " ++ [128512]%N ++ runes_of_ascii " emoji
+{ } options {
+    // a // b
+    tag // `tick` ""quote"" 'q'
+= //	t
+""""
+    ; u8x = zchar[0  ] }
+MetaData
+    int {zchar[ 10]
+lengthOf	`` , i64 u8x`// not a comment` MetaDataX, pack// `tick` ""quote"" 'q'
+`crlf
+line`
+, Logon charz `crlf
+line`
+    ,
+    // a // b
+    }
+")).
+Eval vm_compute in ("<<<M1624>>>" ++ check (runes_of_ascii "root packet Foo // " ++ [128512]%N ++ runes_of_ascii " emoji
+{ } options {
+    // a // b
+    tag // `tick` ""quote"" 'q'
+= //	t
+""""
+    ; u8x = zchar[0  ] }
+MetaData
+    " ++ [21517; 23383]%N ++ runes_of_ascii " {zchar[ 10]
+lengthOf	`` , i64 u8x`// not a comment` ,MetaDataX pack// `tick` ""quote"" 'q'
+`crlf
+line`
+, Logon charz `crlf
+line`
+    ,
+    // a // b
+    }
+")).
+Eval vm_compute in ("<<<M1579>>>" ++ check (runes_of_ascii "root packet Foo // " ++ [128512]%N ++ runes_of_ascii " emoji
+{ } options {
+    // a // b
+    tag // `tick` ""quote"" 'q'
+= //	t
+""""
+    ; u8x = zchar[0  ] }
+MetaData
+    int {zchar[ 10]
+lengthOf	`` , i64 u8x`// not a comment` ,MetaDataX pack// `tick` ""quote"" 'q'
+`crlf
+line`
+,  charz `crlf
+line`
+    ,
+    // a // b
+    }
+")).
+Eval vm_compute in ("<<<M3857>>>" ++ check (runes_of_ascii "
+
+  // top
+
+options 
+// c0
+    	{ 
+
+// c1
+	FixedStringPadFromLeft
+    =
+
+// c3
+
+  true // c4
+      ;
+
+// c5
+
+	}
+// c6
+	root 
+  // c7
+  packet 
+P// c9a
+
+	// c9b
+	{
+    // c10
+  char[
+    // c11
+	4	// c12a
+	  // c12b
+	]
+
+    z
+
+    // c14
+    , 	 // c15a
+	  // c15b
+      } ")).
+Eval vm_compute in ("<<<M797>>>" ++ check (runes_of_ascii "
+root packet Pad { @rightPad (
+'\x00') trueish
+`it's`
+, } MetaData metadata
+{ char[] falsey`
+` ,} root
+packet
+    calculatedFrom { @lengthOf( packetx )@lengthOf( float)/// triple
+@tag(
+    00//
+)int `doc`, @calculatedFrom( ""\" ++ [233]%N ++ runes_of_ascii """
+) @tag( 4294967296	) char[]_x `doc`, }")).
+Eval vm_compute in ("<<<M4288>>>" ++ check (runes_of_ascii "packet metadata { 
+@rightPad
+	//x
+  	(
+
+'\x00'
+        // c
+    ) @rightPad
+( '\x00'
+)char[]
+_x @calculatedFrom(  ""a\\"" ) ,repeat int64
+	roots ,
+repeat// trailing space 
+      zchar[  007 // c
+	]i64_,
+    match
+A
+as
+	o
+	{
+	""1""
+:Foo	, }	,  //x
+    	}")).
+Eval vm_compute in ("<<<M4115>>>" ++ check (runes_of_ascii "packet tag {
+    u32 crc @lengthOf(a1),
+    string falsey `say ""hi""`,
+    @tag(1)
+    asx,
+}
+
+options {
+    f32a = true;
+    zchar = '\x00';
+}
+
+packet BodyLength {
+    @tag(007)
+    @calculatedFrom(""" ++ [128512]%N ++ runes_of_ascii """)
+    repeat zchar[007] packetx,
+}
+/// triple")).
+Eval vm_compute in ("<<<M1267>>>" ++ check (runes_of_ascii "
+MetaData
+    // a // b
+    uint8x /// triple
+{ }packet matchKey	{ @rightPad (	)
+    a1
+{
+zchar[
+    1 ] u128 @calculatedFrom(  ""a\""b"" ),	i64_ i8i8 ,
+    // c
+    repeat int roots , i8 charz
+//
+// packet A { u8 x, }
+,  }	,
+} options { }")).
+Eval vm_compute in ("<<<M3797>>>" ++ check (runes_of_ascii "packet	Logon{
+    string 
+user,
+} root 
+packet
+    Frame 
+{
+
+    u8
+	K
+	,  match
+K
+as
+
+    Body { 1:
+
+Logon
+
+,
+	2 
+:  Logout
+	,
+	}
+    ,
+Tail ,} packet
+    Logout {
+
+u16  reason, } 
+packet
+Tail
+
+    {u32  crc
+	,
+	}
+
+")).
+Eval vm_compute in ("<<<M3871>>>" ++ check (runes_of_ascii "packet T {
+    match Packet as Header {
+        42 : BodyLength,
+        ""// no comment"" : matchKey,
+        ""`tick`"" : crc,
+        [1] : o,
+    },
+}// " ++ [128512]%N ++ runes_of_ascii " emoji
+
+packet As {
+}
+
+options {
+    u128 = ' '
+    body = char[]
+}")).
+Eval vm_compute in ("<<<M2256>>>" ++ check (runes_of_ascii "MetaData Packet { }packet	asx  { @lengthOf( asx) ) falsey`crlf
+line`
+,
+    }
+    packet x	{uint32// @lengthOf(
+rootA	,u32 options1 `say ""hi""` , @tag( 7
+    )// packet A { u8 x, }
+msg_type @lengthOf(
+stringy	)	, }
+
+")).
+Eval vm_compute in ("<<<M2391>>>" ++ check (runes_of_ascii "MetaData Packet { }packet	asx  { @lengthOf( asx) falsey`crlf
+line`
+,
+    }
+    packet x	{|uint32// @lengthOf(
+rootA	,u32 options1 `say ""hi""` , @tag( 7
+    )// packet A { u8 x, }
+msg_type @lengthOf(
+stringy	)	, }
+
+")).
+Eval vm_compute in ("<<<M2357>>>" ++ check (runes_of_ascii "MetaData Packet { }packet	asx  { @lengthOf( asx) falsey`crlf
+line`
+,
+    }
+    packet x	{uint32// @lengthOf(
+rootA	,u32 options1 `say ""hi""` , @tag( 7
+    )// packet A { u8 x, }
+msg_type @lengthOf(
+)	stringy	, }
+
+")).
+Eval vm_compute in ("<<<M1117>>>" ++ check (runes_of_ascii "MetaData string_
+{ // c
+len
+MetaDataX`
+` , char[] options1
+// " ++ [27880; 37322]%N ++ runes_of_ascii "
+/// triple
+,u tag
+, options1 Z9_ ,
+x // c
+f32a //x
+`line1
+line2`,zchar[ 0123456789 ] pack
+,
+}packet _x {  @leftPad ( ) char[	10
+] roots , }
+")).
+Eval vm_compute in ("<<<M1123>>>" ++ check (runes_of_ascii "packet body { @rightPad /// triple
+( // " ++ [27880; 37322]%N ++ runes_of_ascii "
+'0') uint64 repeatCount , @lengthOf(o)@lengthOf(
+asx
+    // c
+    ) @lengthOf( MetaDataX ) match falsey // packet A { u8 x, }
+as
+x { ""a\\"":float
+    , } ,
+} // " ++ [27880; 37322]%N)).
+Eval vm_compute in ("<<<M2265>>>" ++ check (runes_of_ascii "MetaData Packet { }packet	asx  { @lengthOf( asx) falsey
+,
+    }
+    packet x	{uint32// @lengthOf(
+rootA	,u32 options1 `say ""hi""` , @tag( 7
+    )// packet A { u8 x, }
+msg_type @lengthOf(
+stringy	)	, }
+
+")).
+Eval vm_compute in ("<<<M827>>>" ++ check (runes_of_ascii "packet _x{Pad``, f32 roots , i8 // " ++ [27880; 37322]%N ++ runes_of_ascii "
+pack, @lengthOf(
+    roots	)repeat
+zchar[	65535 ] int,
+@lengthOf( u8x )
+repeat int16
+msg_type , } // @lengthOf(
+MetaData
+BodyLength {char[] _x `doc`
+, }
+")).
+Eval vm_compute in ("<<<M86>>>" ++ check (runes_of_ascii "
+packet calculatedFrom { } MetaData charz
+{
+Z9_
+    // @lengthOf(
+    Pad // a // b
+, uint64
+// packet A { u8 x, }
+// a // b
+u `" ++ [233]%N ++ runes_of_ascii "` , char[
+00]
+Z9_,	}// `tick` ""quote"" 'q'
+options {} 	 ")).
+Eval vm_compute in ("<<<M3712>>>" ++ check (runes_of_ascii "packet  crc{} MetaData/// triple
+
+  Packet{
+
+    Logon
+
+Pad
+    `line1
+line2` ,  u8
+pack
+	, // a // b
+
+	}
+
+    options 
+    // c
+	{
+falsey
+
+    =
+""it's""	len
+= """ ++ [28040; 24687]%N ++ runes_of_ascii """ ;
+}
+")).
+Eval vm_compute in ("<<<M183>>>" ++ check (runes_of_ascii "packet x_y_z{  } packet  Logon { repeat i8 int
+,} root packet stringy
+{ char chars ,
+char[] a1@calculatedFrom( ""// no comment"" )`// not a comment`, string
+    Logon , }
+")).
+Eval vm_compute in ("<<<M4375>>>" ++ check (runes_of_ascii "  // `tick` ""quote"" 'q'
+	  options
+
+{ calculatedFrom	// " ++ [27880; 37322]%N ++ runes_of_ascii "
+= ""{,}""
+
+Pad= int32; 
+uint8x /// triple
+      =
+    ""`tick`""  
+  // @lengthOf(
+  	// @lengthOf(
+    }
+")).
+Eval vm_compute in ("<<<M1088>>>" ++ check (runes_of_ascii "packet u // c
+{
+    //x
+    char[42 ]
+roots
+// " ++ [27880; 37322]%N ++ runes_of_ascii "
+// `tick` ""quote"" 'q'
+, @lengthOf( u128)
+uint8 tag,repeat uint16
+int `{ , }`
+,
+    }
+// trailing space 
+")).
+Eval vm_compute in ("<<<M3466>>>" ++ check (runes_of_ascii "root packet
+    // c1
+P // c2
+{ u8 // c4
+s_u8 // c5
+, // c6
+repeat // c7
+u8 // c8
+r_u8 , u16 // c11
+b_len
+    // c12
+, // c13a
+  // c13b
+}
+    // c14
+")).
+Eval vm_compute in ("<<<M3733>>>" ++ check (runes_of_ascii "options {
+    a1 = char[1];
+    x = f64;
+    Z9_ = char[3];
+    Z9_ = '\x00'
+    x_y_z = zchar[10];
+}
+
+packet x_y_z {
+    chars trueish `it's`,
+}")).
+Eval vm_compute in ("<<<M4422>>>" ++ check (runes_of_ascii "packet A {
+    match k as n {
+        [
+            ""a"", ""bb"", ""c c"", ""d"", ""e"",
+            ""f"", ""g""
+        ] : B,
+        2 : C,
+    },
+}")).
+Eval vm_compute in ("<<<M1630>>>" ++ check (runes_of_ascii "root packet packet /// triple
+rootA {	i32
 MetaDataX@calculatedFrom( ""CRC32"" ) `line1
 line2` , } MetaData BodyLength {
 u8
 rootA, } // c")).
-Eval vm_compute in ("<<<M4027>>>" ++ check (runes_of_ascii "
-
-  options {LittleEndian
-= 
-true
-    ;  }
-
-    root
-
+Eval vm_compute in ("<<<M398>>>" ++ check (runes_of_ascii "// `tick` ""quote"" 'q'
+options { calculatedFrom // " ++ [27880; 37322]%N ++ runes_of_ascii "
+=""{,}"" Pad
+= int32 ;uint8x/// triple
+= ""`tick`""
+// @lengthOf(
+// @lengthOf(
+}")).
+Eval vm_compute in ("<<<M198>>>" ++ check (runes_of_ascii "// c
+options{
+    //
+    repeatCount = '0';leftPad =
+' ';
+// c
+/// triple
+msg_type
+    = char[ 10
+]
+;}
 packet
-
-P {  u16 a,
-u32 
-Sum
-    @calculatedFrom( ""CR\
-C32"" 
-)  ,  }
+    Packet {//x
+}
 ")).
-Eval vm_compute in ("<<<M385>>>" ++ check (runes_of_ascii "// @lengthOf(
-packet
-    // " ++ [27880; 37322]%N ++ runes_of_ascii "
-    float{
-    @calculatedFrom(
-    ""abc"" )
-char chars
-    @calculatedFrom(""CRC32"" )`" ++ [233]%N ++ runes_of_ascii "`
-, }
-")).
-Eval vm_compute in ("<<<M1856>>>" ++ check (runes_of_ascii "packet
+Eval vm_compute in ("<<<M894>>>" ++ check (runes_of_ascii "options
+{ As= string u =
+    """ ++ [233]%N ++ runes_of_ascii "t" ++ [233]%N ++ runes_of_ascii """
+} packet string_	{ @tag( 3) int32 As ,
+} root packet stringy { //x
+string int,}
+options{  }")).
+Eval vm_compute in ("<<<M1716>>>" ++ check (runes_of_ascii "root packet /// triple
+rootA {	i32
+MetaDataX@calculatedFrom( ""CRC32"" ) `line1
+line2` , } MetaData BodyLength {
+u8
+rootA, } /")).
+Eval vm_compute in ("<<<M1841>>>" ++ check (runes_of_ascii "packet
     Pad // a // b
 { i8i8 @calculatedFrom( ""a	b"") `u8 x,` ,
-} options{ float// " ++ [128512]%N ++ runes_of_ascii " emoji
-= f64 i64_ i64_
-=//	t
-00 }
-")).
-Eval vm_compute in ("<<<M71>>>" ++ check (runes_of_ascii "options{ BodyLength=
-    '\x00' }options
-{ } options {  Pad
-    = ""\" ++ [233]%N ++ runes_of_ascii """  msg_type
-= uint32 ; a1 = '0'  Foo =
-    ' ' ; }")).
-Eval vm_compute in ("<<<M1883>>>" ++ check (runes_of_ascii "packet
-    Pad // a // b
-{ i8i8 @calculatedFrom( ""a	b"") `u8 x,` ,
-} options{ #float// " ++ [128512]%N ++ runes_of_ascii " emoji
+} options{ float float// " ++ [128512]%N ++ runes_of_ascii " emoji
 = f64 i64_
 =//	t
 00 }
 ")).
-Eval vm_compute in ("<<<M1857>>>" ++ check (runes_of_ascii "packet
-    Pad // a // b
-{ i8i8 @calculatedFrom( ""a	b"") `u8 x,` ,
-} options{ float// " ++ [128512]%N ++ runes_of_ascii " emoji
-= f64 =
-i64_//	t
-00 }
-")).
-Eval vm_compute in ("<<<M1865>>>" ++ check (runes_of_ascii "packet
-    Pad // a // b
-{ i8i8 @calculatedFrom( ""a	b"") `u8 x,` ,
-} options{ float// " ++ [128512]%N ++ runes_of_ascii " emoji
-= f64 i64_
-=//	t
- }
-")).
-Eval vm_compute in ("<<<M1855>>>" ++ check (runes_of_ascii "packet
-    Pad // a // b
-{ i8i8 @calculatedFrom( ""a	b"") `u8 x,` ,
-} options{ float// " ++ [128512]%N ++ runes_of_ascii " emoji
-= f64 
-=//	t
-00 }
-")).
-Eval vm_compute in ("<<<M3000>>>" ++ check (runes_of_ascii "packet A {
-  match k as n {
-    [""a"", ""bb"", 007, ""d"", ""e"", 66, ""g"", ""h"", 9, ""j"", ""k"", 12] : B
-    2 : C
-  },
-}")).
-Eval vm_compute in ("<<<M2996>>>" ++ check (runes_of_ascii "packet A {
-  match k as n {
-    [""a"", 22, ""c c"", 4, ""e"", 66, ""g"", 8, ""i"", 10, ""k"", 12] : B
-    2 : C
-  },
-}")).
-Eval vm_compute in ("<<<M3830>>>" ++ check (runes_of_ascii "packet o {
-    @tag(42)
-    repeat x {
-        // c
-        char[0123456789] i64_,
-    },
+Eval vm_compute in ("<<<M3641>>>" ++ check (runes_of_ascii "packet B {
+    u8 a,
 }
 
-options {
-}")).
-Eval vm_compute in ("<<<M3360>>>" ++ check (runes_of_ascii "packet calculatedFrom { @tag( 4294967296 ) u msg_type , char[ 3
-// c
-] crc @lengthOf( len ) `u8 x,` , }")).
-Eval vm_compute in ("<<<M3005>>>" ++ check (runes_of_ascii "packet A {
-    Inner {
-        u8 x `a
-b`,
-        Deep {
-            u8 y `a
-b`,
-        },
+root packet P {
+    u8 K,
+    u8 L @lengthOf(Body),
+    match K as Body {
+        1 : B,
     },
 }")).
-Eval vm_compute in ("<<<M875>>>" ++ check (runes_of_ascii "
-root packet T {
-f32 pack // trailing space 
-@calculatedFrom( ""abc"" )
-`" ++ [28040; 24687; 31867; 22411]%N ++ runes_of_ascii "`
-    , /// triple
-}")).
-Eval vm_compute in ("<<<M961>>>" ++ check (runes_of_ascii "options  { }MetaData
-    u128 {
-int64 u8x
-,lengthOf
-    u128 `it's` // c
-,}options//	t
-{ // c
-}")).
-Eval vm_compute in ("<<<M3242>>>" ++ check (runes_of_ascii "packet Logon { @tag( 42 ) @rightPad ( ' ' ) @leftPad ( ) repeat // c
-trueish { string T , } , }")).
-Eval vm_compute in ("<<<M1408>>>" ++ check (runes_of_ascii "root packet SimpleMessage {
-    uint16 MsgType `" ++ [28040; 24687; 31867; 22411]%N ++ runes_of_ascii "`,
-    string JsonBody `Json" ++ [23383; 31526; 20018; 28040; 24687; 20307]%N ++ runes_of_ascii "`,
-}")).
-Eval vm_compute in ("<<<M4174>>>" ++ check (runes_of_ascii "MetaData u {
-    i32 i8i8 `u8 x,`,
-    MetaDataX pack `
-        `,
-    Logon zchar `doc`,
-}")).
-Eval vm_compute in ("<<<M2942>>>" ++ check (runes_of_ascii "packet A {
+Eval vm_compute in ("<<<M1871>>>" ++ check (runes_of_ascii "packet
+    Pad // a // b
+{ i8i8 @calculatedFrom( ""a	b"") `u8 x,` ,
+} options{ float// " ++ [128512]%N ++ runes_of_ascii " emoji
+= f64 i64_
+=//	t
+00 } }
+")).
+Eval vm_compute in ("<<<M4320>>>" ++ check (runes_of_ascii "
+packet
+A
+	{
+
+    match
+k  as n	{
+    [
+""a""
+
+    ,
+""bb""
+
+    ,
+007
+,
+	""d""]	:B
+
+    2
+
+    : C  } ,
+    }
+")).
+Eval vm_compute in ("<<<M1655>>>" ++ check (runes_of_ascii "root packet /// triple
+rootA {	i32
+MetaDataX tag ""CRC32"" ) `line1
+line2` , } MetaData BodyLength {
+u8
+rootA, } // c")).
+Eval vm_compute in ("<<<M111>>>" ++ check (runes_of_ascii "root packet Pad {@tag(  3
+)
+    @calculatedFrom(
+""a\""b""
+    )repeat zchar[
+    // " ++ [128512]%N ++ runes_of_ascii " emoji
+    00 ] repeatCount , }")).
+Eval vm_compute in ("<<<M334>>>" ++ check (runes_of_ascii "// @lengthOf(
+options{ } packet pack  {//
+} options
+    {
+    }MetaData msg_type
+{} root packet repeatCount  {}")).
+Eval vm_compute in ("<<<M2374>>>" ++ check (runes_of_ascii "MetaData Packet { }packet	asx  { @lengthOf( asx) falsey`crlf
+line`
+,
+    }
+    packet x	{uint32// @lengthOf")).
+Eval vm_compute in ("<<<M3454>>>" ++ check (runes_of_ascii "options {
+    LittleEndian = true;
+}
+root packet P {
+    u16 a,
+    u32 Sum @calculatedFrom(""CR\
+C32""),
+}
+")).
+Eval vm_compute in ("<<<M2997>>>" ++ check (runes_of_ascii "packet A {
   match k as n {
-    [1, ""bb"", 007, ""d"", 5, ""f"", 7, ""h""] : B
+    [1, 22, ""c c"", 4, 5, ""f"", 7, 8, ""i"", 10, 11, ""l""] : B,
     2 : C
   },
 }")).
-Eval vm_compute in ("<<<M2037>>>" ++ check (runes_of_ascii "r#oot
+Eval vm_compute in ("<<<M3367>>>" ++ check (runes_of_ascii "packet calculatedFrom { @tag( 4294967296 ) u msg_type , char[ 3 ] crc @lengthOf( len // c
+) `u8 x,` , }")).
+Eval vm_compute in ("<<<M1468>>>" ++ check (runes_of_ascii "root packet Foo // " ++ [128512]%N ++ runes_of_ascii " emoji
+{ } options {
+    // a // b
+    tag // `tick` ""quote"" 'q'
+= //	t
+""""
+    ;")).
+Eval vm_compute in ("<<<M2304>>>" ++ check (runes_of_ascii "MetaData Packet { }packet	asx  { @lengthOf( asx) falsey`crlf
+line`
+,
+    }
+    packet x	{uint32")).
+Eval vm_compute in ("<<<M971>>>" ++ check (runes_of_ascii "options {}	packet
+    u128 {repeat uint8x x `say ""hi""` , // trailing space 
+}MetaData crc { }
+")).
+Eval vm_compute in ("<<<M3243>>>" ++ check (runes_of_ascii "packet Logon { @tag( 42 ) @rightPad ( ' ' ) @leftPad ( ) repeat
+// c
+trueish { string T , } , }")).
+Eval vm_compute in ("<<<M2040>>>" ++ check (runes_of_ascii "@leftpadroot
 packet crc
     { f32a @calculatedFrom( """ ++ [233]%N ++ runes_of_ascii "t" ++ [233]%N ++ runes_of_ascii """ )
     `say ""hi""`, lengthOf `` ,  }")).
-Eval vm_compute in ("<<<M2950>>>" ++ check (runes_of_ascii "packet A {
-  match k as n {
-    [1, 22, 007, 4, 5, 66, 7, 8, 9] : B,
-    2 : C
-  },
-}")).
-Eval vm_compute in ("<<<M1182>>>" ++ check (runes_of_ascii "options {
-// a // b
-//
-Z9_
-= char[
-1
-]
-Foo = '0'
-; // `tick` ""quote"" 'q'
-} //	t")).
-Eval vm_compute in ("<<<M3301>>>" ++ check (runes_of_ascii "packet o { @tag(
+Eval vm_compute in ("<<<M4185>>>" ++ check (runes_of_ascii "root packet
+
+repeatCount{
+@lengthOf(
+
+Foo )@tag(4294967296
+    ) repeat
+f32  u8x,} 
+
 // c
-42 ) repeat x { char[ 0123456789 ] i64_ , } , } options { }")).
-Eval vm_compute in ("<<<M3655>>>" ++ check (runes_of_ascii "
-packet
-A {B
-    b
-    `tab
-	x`
+")).
+Eval vm_compute in ("<<<M4400>>>" ++ check (runes_of_ascii "root packet crc {
+    f32a @calculatedFrom(""" ++ [233]%N ++ runes_of_ascii "t" ++ [233]%N ++ runes_of_ascii """) `say ""hi""`,
+    lengthOf lengthOf ``,
+}")).
+Eval vm_compute in ("<<<M3816>>>" ++ check (runes_of_ascii "packet
 
+    _x 
+{ repeat	crc
+
+    {
+
+    char[
+7 
+]
+    float
+
+    ,	}
+    ,}
+")).
+Eval vm_compute in ("<<<M1968>>>" ++ check (runes_of_ascii "root
+packet {
+    crc f32a @calculatedFrom( """ ++ [233]%N ++ runes_of_ascii "t" ++ [233]%N ++ runes_of_ascii """ )
+    `say ""hi""`, lengthOf `` ,  }")).
+Eval vm_compute in ("<<<M2928>>>" ++ check (runes_of_ascii "packet A {
+  match k as n {
+    [1, ""bb"", 007, ""d"", 5, ""f"", 7] : B,
+    2 : C
+  },
+}")).
+Eval vm_compute in ("<<<M3293>>>" ++ check (runes_of_ascii "
+// c
+packet o { @tag( 42 ) repeat x { char[ 0123456789 ] i64_ , } , } options { }")).
+Eval vm_compute in ("<<<M3310>>>" ++ check (runes_of_ascii "packet o { @tag( 42 ) repeat x { // c
+char[ 0123456789 ] i64_ , } , } options { }")).
+Eval vm_compute in ("<<<M1986>>>" ++ check (runes_of_ascii "root
+packet crc
+    { f32a @calculatedFrom(  )
+    `say ""hi""`, lengthOf `` ,  }")).
+Eval vm_compute in ("<<<M823>>>" ++ check (runes_of_ascii "options{Header = true ; pack
+= ""{,}"" ; }
+//
+/// triple
+options{
+i8i8= false
+}")).
+Eval vm_compute in ("<<<M2734>>>" ++ check (runes_of_ascii "@lengthOf( float64 @calculatedFrom( f64 uint16 int8 char i16 packet = repeat")).
+Eval vm_compute in ("<<<M3818>>>" ++ check (runes_of_ascii "packet
+
+A  {	match	k 
+as 
+n
+
+    { 
+[
+
+1 
 ,
-	B	`tab
-	x`
-	, repeat
-B 
-bs `tab
-	x`
-	,
-}
+""bb"" , 007 
+]:
+B 2 :C	},	}
 ")).
-Eval vm_compute in ("<<<M3464>>>" ++ check (runes_of_ascii "root
-
-    packet P  { 
-repeat
-string
-
-    ss
-
-    ,	repeat 
-u16	ns
-
-,}
-")).
-Eval vm_compute in ("<<<M2902>>>" ++ check (runes_of_ascii "packet A {
-  match k as n {
-    [1, ""bb"", 007, ""d"", 5] : B,
-    2 : C
-  },
+Eval vm_compute in ("<<<M1671>>>" ++ check (runes_of_ascii "root packet /// triple
+rootA {	i32
+MetaDataX@calculatedFrom( ""CRC32"" )")).
+Eval vm_compute in ("<<<M3402>>>" ++ check (runes_of_ascii "MetaData _x { zchar[
+// c
+4294967296 ] lengthOf `// not a comment` , }")).
+Eval vm_compute in ("<<<M294>>>" ++ check (runes_of_ascii "
+packet
+    //x
+    MetaDataX { repeat rootA `two words` //x
+,//
 }")).
-Eval vm_compute in ("<<<M687>>>" ++ check (runes_of_ascii "packet asx
+Eval vm_compute in ("<<<M2202>>>" ++ check (runes_of_ascii "root
+    // `tick` ""quote"" 'q'
+    packet As\ { trueish Packet , }
+")).
+Eval vm_compute in ("<<<M3699>>>" ++ check (runes_of_ascii "options 
 {
-metadata// a // b
-@calculatedFrom( ""// no comment"" ) ,
-}
-
+    matchKey // `tick` ""quote"" 'q'
+	  = '0' // " ++ [27880; 37322]%N ++ runes_of_ascii "
+;
+	}")).
+Eval vm_compute in ("<<<M362>>>" ++ check (runes_of_ascii "//x
+MetaData msg_type
+    {// a // b
+uint32 pack
+`tab	here`, }
 ")).
-Eval vm_compute in ("<<<M2899>>>" ++ check (runes_of_ascii "packet A {
+Eval vm_compute in ("<<<M2174>>>" ++ check (runes_of_ascii "root
+    // `tick` ""quote"" 'q'
+    packet As { as Packet , }
+")).
+Eval vm_compute in ("<<<M2860>>>" ++ check (runes_of_ascii "packet A {
   match k as n {
-    [1, 22, 007, 4, 5] : B
+    [""a""] : B,
     2 : C
   },
 }")).
-Eval vm_compute in ("<<<M3405>>>" ++ check (runes_of_ascii "MetaData _x { zchar[ 4294967296 ] // c
-lengthOf `// not a comment` , }")).
-Eval vm_compute in ("<<<M1834>>>" ++ check (runes_of_ascii "packet
-    Pad // a // b
-{ i8i8 @calculatedFrom( ""a	b"") `u8 x,` ,
-}")).
-Eval vm_compute in ("<<<M2877>>>" ++ check (runes_of_ascii "packet A {
-  match k as n {
-    [1, ""bb"", 007] : B
-    2 : C
-  },
-}")).
-Eval vm_compute in ("<<<M322>>>" ++ check (runes_of_ascii "root packet matchKey { } packet msg_type{	char[ 65535]
-falsey ,}
-")).
-Eval vm_compute in ("<<<M1287>>>" ++ check (runes_of_ascii "MetaData falsey{ // a // b
-char[]	pack ,string int `u8 x,` , }
-")).
-Eval vm_compute in ("<<<M2742>>>" ++ check (runes_of_ascii "[ ) repeatCount repeat float32 { uint8 int16 ""it's"" int64 : ;")).
-Eval vm_compute in ("<<<M1953>>>" ++ check (runes_of_ascii "
-@tagpacket	As { @calculatedFrom(//x
-""{,}""	)lengthOf , } 	 ")).
 Eval vm_compute in ("<<<M1941>>>" ++ check (runes_of_ascii "
 ? packet	As { @calculatedFrom(//x
 ""{,}""	)lengthOf , } 	 ")).
-Eval vm_compute in ("<<<M29>>>" ++ check (runes_of_ascii "packet chars// packet A { u8 x, }
-{} packet u {
-}
-//	t
+Eval vm_compute in ("<<<M4046>>>" ++ check (runes_of_ascii "options	{ 
+	// " ++ [27880; 37322]%N ++ runes_of_ascii "
+
+  //
+    	calculatedFrom =false
+	}
 ")).
 Eval vm_compute in ("<<<M1753>>>" ++ check (runes_of_ascii "options { }options options {  } // `tick` ""quote"" 'q'")).
-Eval vm_compute in ("<<<M4058>>>" ++ check (runes_of_ascii "options
-{ 
-repeatCount = 00 ; }
-	    // " ++ [128512]%N ++ runes_of_ascii " emoji
+Eval vm_compute in ("<<<M1225>>>" ++ check (runes_of_ascii "  packet  u { repeat x pack `// not a comment`, }
 ")).
-Eval vm_compute in ("<<<M1957>>>" ++ check (runes_of_ascii "
+Eval vm_compute in ("<<<M2397>>>" ++ check (runes_of_ascii "MetaData A
+{
+i64
+chars	, } <// `tick` ""quote"" 'q'")).
+Eval vm_compute in ("<<<M1177>>>" ++ check (runes_of_ascii "options {leftPad =
+""it's""  u8x =1  tag=
+true }
+")).
+Eval vm_compute in ("<<<M1767>>>" ++ check ([233]%N ++ runes_of_ascii "options { }options {  } // `tick` ""quote"" 'q'")).
+Eval vm_compute in ("<<<M3006>>>" ++ check (runes_of_ascii "MetaData M {
+    u8 x `a
+b`,
+    T t `a
+b`,
+}")).
+Eval vm_compute in ("<<<M2560>>>" ++ check (runes_of_ascii "packet A { repeat x @calculatedFrom(""c""), }")).
+Eval vm_compute in ("<<<M1939>>>" ++ check (runes_of_ascii "
 packet	As { @calculatedFrom(//x
-""{,}""	)" ++ [21517; 23383]%N ++ runes_of_ascii " , } 	 ")).
-Eval vm_compute in ("<<<M738>>>" ++ check (runes_of_ascii "options {
-float = ' '
-;
-    _x	= 4294967296 ; }")).
-Eval vm_compute in ("<<<M1774>>>" ++ check (runes_of_ascii "options { }options {  ~} // `tick` ""quote"" 'q'")).
-Eval vm_compute in ("<<<M4271>>>" ++ check (runes_of_ascii "packet A {
-    u8 x,// a
-    // b
-    u8 y,
-}")).
-Eval vm_compute in ("<<<M3042>>>" ++ check (runes_of_ascii "MetaData M {
-    u8 x `
-x`,
-    T t `
-x`,
-}")).
-Eval vm_compute in ("<<<M2165>>>" ++ check (runes_of_ascii "root
-    // `tick` ""quote"" 'q'
-    packet")).
-Eval vm_compute in ("<<<M2585>>>" ++ check (runes_of_ascii "packet A { x @calculatedFrom(""c"") `d`, }")).
-Eval vm_compute in ("<<<M561>>>" ++ check (runes_of_ascii "options{ repeatCount =007 ;} /// triple")).
+""{,}""	)l")).
+Eval vm_compute in ("<<<M2376>>>" ++ check (runes_of_ascii "MetaData Packet { }packet	asx  { @length")).
+Eval vm_compute in ("<<<M3863>>>" ++ check (runes_of_ascii "
+
+  packet
+	A {u8
+    x
+	`
+x`
+
+    ,}
+")).
 Eval vm_compute in ("<<<M2111>>>" ++ check (runes_of_ascii "MetaData x
 i16// " ++ [128512]%N ++ runes_of_ascii " emoji
 { stringy , }")).
-Eval vm_compute in ("<<<M2695>>>" ++ check ([65533]%N ++ runes_of_ascii "-" ++ [20; 65533]%N ++ runes_of_ascii "?" ++ [65533; 65533]%N ++ runes_of_ascii "&" ++ [65533]%N ++ runes_of_ascii "G" ++ [65533]%N ++ runes_of_ascii "i" ++ [65533; 8; 65533; 65533]%N ++ runes_of_ascii "*b2" ++ [65533; 65533]%N ++ runes_of_ascii "(" ++ [65533; 65533]%N ++ runes_of_ascii "~" ++ [65533; 65533]%N ++ runes_of_ascii "]n" ++ [65533; 65533; 65533; 65533; 12465]%N ++ runes_of_ascii "4E" ++ [20]%N)).
-Eval vm_compute in ("<<<M1305>>>" ++ check (runes_of_ascii "MetaData Header {
-pack o`doc` ,
-}
+Eval vm_compute in ("<<<M2605>>>" ++ check (runes_of_ascii "packet A { match k as n { [] : B }, }")).
+Eval vm_compute in ("<<<M1321>>>" ++ check (runes_of_ascii "MetaData packetx { _x	metadata , }
 ")).
-Eval vm_compute in ("<<<M3872>>>" ++ check (runes_of_ascii "options {
-    Packet = ""packet"";
+Eval vm_compute in ("<<<M305>>>" ++ check (runes_of_ascii "
+packet asx{ u64
+MetaDataX
+, }
+")).
+Eval vm_compute in ("<<<M4210>>>" ++ check (runes_of_ascii "packet A {
+    u8 x `d" ++ [11]%N ++ runes_of_ascii "`,// c" ++ [11]%N ++ runes_of_ascii "
 }")).
-Eval vm_compute in ("<<<M3128>>>" ++ check (runes_of_ascii "packet A {
- u8 x `d 	`, // c 	
+Eval vm_compute in ("<<<M2784>>>" ++ check (runes_of_ascii "uint32 : ; 7 `tab	here` , char")).
+Eval vm_compute in ("<<<M2244>>>" ++ check (runes_of_ascii "MetaData Packet { }packet	asx")).
+Eval vm_compute in ("<<<M4471>>>" ++ check (runes_of_ascii "packet lengthOf {
+    // c
 }")).
-Eval vm_compute in ("<<<M2054>>>" ++ check (runes_of_ascii "MetaData options { u64 pack, }")).
-Eval vm_compute in ("<<<M657>>>" ++ check (runes_of_ascii "
-MetaData a1
-{ // " ++ [128512]%N ++ runes_of_ascii " emoji
-}")).
-Eval vm_compute in ("<<<M2839>>>" ++ check (runes_of_ascii """{,}"" uint32 MetaData packet")).
-Eval vm_compute in ("<<<M704>>>" ++ check (runes_of_ascii "
-options { int	= i16 ; }
+Eval vm_compute in ("<<<M904>>>" ++ check (runes_of_ascii "options { tag = 007
+    }
 ")).
-Eval vm_compute in ("<<<M2088>>>" ++ check (runes_of_ascii "MetaData A { `u64 pack, }")).
-Eval vm_compute in ("<<<M1214>>>" ++ check (runes_of_ascii "options {leftPad =' ' }
+Eval vm_compute in ("<<<M2093>>>" ++ check (runes_of_ascii "MetaData $A { u64 pack, }")).
+Eval vm_compute in ("<<<M2058>>>" ++ check (runes_of_ascii "MetaData A u64 { pack, }")).
+Eval vm_compute in ("<<<M4096>>>" ++ check (runes_of_ascii "
+packet A {
+}	// c" ++ [8203]%N ++ runes_of_ascii "
+ 
 ")).
-Eval vm_compute in ("<<<M4247>>>" ++ check (runes_of_ascii "
-// c" ++ [6158]%N ++ runes_of_ascii "
-    packet
-A
-{}
+Eval vm_compute in ("<<<M979>>>" ++ check (runes_of_ascii "packet //
+roots  { }
 ")).
-Eval vm_compute in ("<<<M1218>>>" ++ check (runes_of_ascii "packet
-    Packet {
-}
+Eval vm_compute in ("<<<M2743>>>" ++ check (runes_of_ascii "#" ++ [65533]%N ++ runes_of_ascii "k" ++ [65533; 4]%N ++ runes_of_ascii "M" ++ [1580]%N ++ runes_of_ascii "!" ++ [65533]%N ++ runes_of_ascii "W" ++ [65533]%N ++ runes_of_ascii "3J" ++ [14]%N ++ runes_of_ascii "fa" ++ [65533]%N ++ runes_of_ascii "R" ++ [65533]%N ++ runes_of_ascii ")D")).
+Eval vm_compute in ("<<<M131>>>" ++ check (runes_of_ascii "  packet float { }
 ")).
-Eval vm_compute in ("<<<M2645>>>" ++ check (runes_of_ascii "MetaData M { x y z, }")).
-Eval vm_compute in ("<<<M3977>>>" ++ check (runes_of_ascii "
-
-  options
-    {
-} ")).
-Eval vm_compute in ("<<<M860>>>" ++ check (runes_of_ascii "//	t
-options
-{ }
-
-")).
-Eval vm_compute in ("<<<M3097>>>" ++ check (runes_of_ascii "// c" ++ [8232]%N ++ runes_of_ascii "
+Eval vm_compute in ("<<<M4414>>>" ++ check (runes_of_ascii "
+MetaData
+asx {} ")).
+Eval vm_compute in ("<<<M3087>>>" ++ check (runes_of_ascii "// c" ++ [8192]%N ++ runes_of_ascii "
 packet A {
 }")).
-Eval vm_compute in ("<<<M2632>>>" ++ check (runes_of_ascii "packet A { } // c")).
-Eval vm_compute in ("<<<M912>>>" ++ check (runes_of_ascii "//
-packet crc{ }")).
-Eval vm_compute in ("<<<M2804>>>" ++ check (runes_of_ascii "f32 u32 ""CRC32""")).
-Eval vm_compute in ("<<<M906>>>" ++ check (runes_of_ascii "
-// " ++ [128512]%N ++ runes_of_ascii " emoji
+Eval vm_compute in ("<<<M2566>>>" ++ check (runes_of_ascii "packet A { u8 x }")).
+Eval vm_compute in ("<<<M184>>>" ++ check (runes_of_ascii "packet As
+{
+}
 ")).
-Eval vm_compute in ("<<<M2633>>>" ++ check (runes_of_ascii "packet A {")).
-Eval vm_compute in ("<<<M1746>>>" ++ check (runes_of_ascii "options")).
-Eval vm_compute in ("<<<M2510>>>" ++ check (runes_of_ascii """a\
-b""")).
-Eval vm_compute in ("<<<M2672>>>" ++ check (runes_of_ascii "u8 x,")).
-Eval vm_compute in ("<<<M2476>>>" ++ check (runes_of_ascii "'  '")).
-Eval vm_compute in ("<<<M2506>>>" ++ check (runes_of_ascii """a\")).
-Eval vm_compute in ("<<<M2505>>>" ++ check (runes_of_ascii """a")).
-Eval vm_compute in ("<<<M2684>>>" ++ check ([65279]%N)).
+Eval vm_compute in ("<<<M2720>>>" ++ check (runes_of_ascii "I/Ek^_AdRTyN""]*")).
+Eval vm_compute in ("<<<M1970>>>" ++ check (runes_of_ascii "root
+packet")).
+Eval vm_compute in ("<<<M2634>>>" ++ check (runes_of_ascii "packet A }")).
+Eval vm_compute in ("<<<M2447>>>" ++ check (runes_of_ascii "trueish")).
+Eval vm_compute in ("<<<M3125>>>" ++ check (runes_of_ascii "// c 	")).
+Eval vm_compute in ("<<<M3070>>>" ++ check (runes_of_ascii "// c" ++ [160]%N)).
+Eval vm_compute in ("<<<M2514>>>" ++ check (runes_of_ascii """//""")).
+Eval vm_compute in ("<<<M2529>>>" ++ check (runes_of_ascii "a-b")).
+Eval vm_compute in ("<<<M2545>>>" ++ check (runes_of_ascii "	a")).
